@@ -12,2462 +12,1315 @@ Definition show_fres (r : fres) : string :=
   end.
 Definition check (rs : list rune) : string := digest (show_fres (format_res rs)).
 Definition full (rs : list rune) : string := show_fres (format_res rs).
-Eval vm_compute in ("<<<M3511>>>" ++ check (runes_of_ascii "// top
-options // c0a
-  // c0b
-{ LittleEndian
-    // c2
-=
-    // c3
-true // c4
-; StringPrefixLenType
-    // c6
-= // c7
-u32 // c8a
-  // c8b
-; FixedStringPadChar // c10a
-  // c10b
-= // c11
-'0' ;
-    // c13
-} // c14a
-  // c14b
-packet // c15a
-  // c15b
-Logout // c16
-{
-    // c17
-repeat InMsgkind49 { // c20
-u8 // c21a
-  // c21b
-pad0 // c22
-, // c23
-}
-    // c24
-, // c25
-repeat // c26
-char[ // c27a
-  // c27b
-5 ]
-    // c29
-seqNo
-    // c30
-, // c31
-repeat // c32a
-  // c32b
-u8 // c33a
-  // c33b
-price // c34
-, }
-    // c36
-packet
-    // c37
-Party // c38a
-  // c38b
-{
-    // c39
-zchar[ 7 // c41a
-  // c41b
-] // c42
-Qty // c43
-, // c44a
-  // c44b
-} packet // c46a
-  // c46b
-Logon // c47
-{
-    // c48
-repeat InRef10 // c50a
-  // c50b
-{ string price // c53a
-  // c53b
-, // c54a
-  // c54b
-char[]
-    // c55
-sym // c56a
-  // c56b
-, // c57
-repeat // c58a
-  // c58b
-Logout // c59a
-  // c59b
-, // c60
-} // c61
-,
-    // c62
-repeat // c63a
-  // c63b
-char[ 3 // c65a
-  // c65b
-]
-    // c66
-count
-    // c67
-,
-    // c68
-repeat Party // c70
-, // c71a
-  // c71b
-char[] // c72a
-  // c72b
-tag7 ,
-    // c74
-@rightPad // c75a
-  // c75b
-( // c76a
-  // c76b
-'0' ) // c78a
-  // c78b
-char[ // c79a
-  // c79b
-2 ]
-    // c81
-clOrdID
-    // c82
-, // c83
-} packet Order
-    // c86
-{
-    // c87
-InTail13 // c88
-{ // c89
-Party
-    // c90
-, // c91
-}
-    // c92
-, // c93
-repeat // c94
-char[ // c95a
-  // c95b
-4 ]
-    // c97
-count
-    // c98
-, // c99
-}
-    // c100
-root // c101a
-  // c101b
-packet // c102
-Cancel { // c104a
-  // c104b
-Logout
-    // c105
-, // c106a
-  // c106b
-@leftPad // c107a
-  // c107b
-( '0' ) // c110a
-  // c110b
-char[ 9 // c112
-] msgKind , // c115
-string // c116a
-  // c116b
-lastPx // c117
-, string // c119a
-  // c119b
-tag7 // c120a
-  // c120b
-,
-    // c121
-zchar[ // c122a
-  // c122b
-1 // c123
-] // c124
-OrderId // c125
-,
-    // c126
-repeat
-    // c127
-Party // c128a
-  // c128b
-, // c129
-u16
-    // c130
-sym
-    // c131
-, u16 // c133
-Acct @lengthOf( // c135a
-  // c135b
-Body
-    // c136
-) , // c138a
-  // c138b
-match
-    // c139
-sym
-    // c140
-as
-    // c141
-Body // c142a
-  // c142b
-{ [ // c144a
-  // c144b
-24 , 44 // c147
-]
-    // c148
-: Logout // c150a
-  // c150b
-, // c151
-160 // c152a
-  // c152b
-: Order , // c155
-91 // c156a
-  // c156b
-: Logon , 43 // c160
-: // c161
-Party
-    // c162
-, // c163
-} // c164
-, u16 Tail // c167
-@calculatedFrom( // c168a
-  // c168b
-""CRC32"" ) // c170a
-  // c170b
-, // c171
-} // c172
-")).
-Eval vm_compute in ("<<<M3522>>>" ++ check (runes_of_ascii "// top
+Eval vm_compute in ("<<<M1450>>>" ++ check (runes_of_ascii "// top
 options
     // c0
-{ LittleEndian =
-    // c3
-false // c4a
-  // c4b
-; // c5
-StringPrefixLenType // c6a
-  // c6b
-= // c7
-u16 ;
-    // c9
-ArrayPrefixLenType // c10a
-  // c10b
+{ // c1
+StringPrefixLenType
+    // c2
+= u32 // c4
+; // c5a
+  // c5b
+ArrayPrefixLenType // c6
 =
-    // c11
-u32 // c12
-; // c13
-} packet Order { uint8 // c18
-x
+    // c7
+u8 // c8
+; // c9a
+  // c9b
+FixedStringPadFromLeft // c10a
+  // c10b
+= false // c12
+; } packet // c15
+Logon
+    // c16
+{ // c17
+i8
+    // c18
+venue
     // c19
-, repeat // c21
-string venue // c23a
-  // c23b
+, // c20a
+  // c20b
+int16 f1
+    // c22
 ,
-    // c24
-}
-    // c25
-packet // c26
-Heartbeat
-    // c27
-{ // c28
-i64 // c29
-count ,
-    // c31
+    // c23
 zchar[
-    // c32
-1 ] Qty ,
-    // c36
-repeat // c37a
-  // c37b
-InX29 // c38
-{ // c39a
-  // c39b
-InSeqno26 // c40
-{ // c41a
-  // c41b
-int64
-    // c42
-f1 , char[ // c45a
-  // c45b
-5 ] Acct , // c49a
-  // c49b
-Order
-    // c50
-,
-    // c51
-} // c52a
-  // c52b
-, // c53a
-  // c53b
-repeat
-    // c54
-InSide285
-    // c55
-{ // c56a
-  // c56b
-repeat
-    // c57
-Order // c58
-, char[ // c60a
-  // c60b
-10 // c61a
-  // c61b
-] // c62a
-  // c62b
-Px // c63a
-  // c63b
-, // c64a
-  // c64b
-zchar[ // c65a
-  // c65b
-9
-    // c66
-] OrderId // c68a
-  // c68b
-, // c69a
-  // c69b
-} // c70a
-  // c70b
-, // c71a
-  // c71b
-char[] venue // c73a
-  // c73b
-,
-    // c74
-Order
-    // c75
-,
-    // c76
-} , // c78
-@rightPad
-    // c79
-( // c80
-'\x00' // c81
-) // c82
-char[
-    // c83
-4 ] clOrdID
-    // c86
-, // c87
-}
-    // c88
-root packet Party // c91
-{ zchar[ // c93a
-  // c93b
-3
-    // c94
-]
-    // c95
-f1 // c96a
-  // c96b
-, u32 clOrdID // c99a
-  // c99b
-, // c100a
-  // c100b
-u32
-    // c101
-Px // c102
-@lengthOf( // c103
-Body // c104a
-  // c104b
-) ,
-    // c106
-match // c107a
-  // c107b
-clOrdID // c108a
-  // c108b
-as // c109a
-  // c109b
-Body
-    // c110
-{ [ 180 , // c114
-64 // c115
-] // c116a
-  // c116b
-: // c117
-Heartbeat // c118a
-  // c118b
-, // c119
-11 // c120a
-  // c120b
-:
-    // c121
-Order
-    // c122
-, // c123a
-  // c123b
-} // c124
-,
-    // c125
-u32 // c126
-Side2 @calculatedFrom( ""CRC32""
-    // c129
-)
-    // c130
-, // c131a
-  // c131b
-}
-    // c132
-")).
-Eval vm_compute in ("<<<M3850>>>" ++ check (runes_of_ascii "options {
-    rootA = """"
-    BodyLength = 0123456789;
-    roots = string
-    options1 = ' '
-}
-
-root packet int {
-    repeat zchar[00] Logon,
-    repeat uint16 body `// not a comment`,
-    @calculatedFrom(""a\""b"")
-    repeat string MetaDataX `a\`,
-    string lengthOf `" ++ [28040; 24687; 31867; 22411]%N ++ runes_of_ascii "`,
-    @tag(3)
-    trueish calculatedFrom,//
-}
-
-root packet i64_ {
-    zchar[007] rootA `" ++ [28040; 24687; 31867; 22411]%N ++ runes_of_ascii "`,
-    @leftPad(' ')
-    @calculatedFrom(""a\\"")
-    @calculatedFrom(""a\""b"")
-    repeat f64 trueish `" ++ [233]%N ++ runes_of_ascii "`,
-    repeat int {
-        match msg_type as asx {
-            """" : u128,
-            [""1"", ""\" ++ [233]%N ++ runes_of_ascii """] : options1,
-            ""x y"" : u8x,
-            ""// no comment"" : BodyLength,
-            [7, ""a\""b"", 4294967296] : asx,
-        },
-        crc @calculatedFrom(""""),
-        // `tick` ""quote"" 'q'
-        match metadata as lengthOf {
-            [4294967296, ""a	b"", ""packet"", ""// no comment""] : repeatCount,
-        },
-        u128 {
-            crc,
-            repeat options1,
-            uint64 BodyLength,
-            matchKey `
-            `,
-        },
-    },
-    @lengthOf(zchar)
-    int8 lengthOf `say ""hi""`,
-}
-
-root packet pack {
-    @calculatedFrom(""a	b"")
-    // " ++ [27880; 37322]%N ++ runes_of_ascii "
-    Pad,
-    @calculatedFrom(""packet"")
-    match u as leftPad {
-        [""{,}""] : A,
-        ""{,}"" : u128,
-        [""1"", 007] : a1,
-        [""1""] : Packet,
-        4294967296 : i8i8,
-        00 : roots,
-        //
-        // packet A { u8 x, }
-    },//
-    char[0123456789] calculatedFrom `say ""hi""`,
-    uint8 int @calculatedFrom(""a\\""),
-    Packet pack,// c
-}")).
-Eval vm_compute in ("<<<M239>>>" ++ check (runes_of_ascii "packet x_y_z {
-packetx { i16 pack `doc` ,
-    repeat char[
-    255
-]leftPad
-    ,
-} , u8x , match o as roots {
-[ // a // b
-0123456789 ]
-    // packet A { u8 x, }
-    : x_y_z [""a\\""
-    ] : packetx
-    , }
-,  repeat charz{	int32 i64_ `{ , }`,
-}  ,  }
-    packet x_y_z { @calculatedFrom(
-""CRC32""
-    )
-@tag( 00 ) @lengthOf(x ) match As as
-stringy
-    { 1	: i64_
-    ,// " ++ [27880; 37322]%N ++ runes_of_ascii "
-[""it's""
-,
-""1"" ,
-""x y"" //
-, 4294967296
-    ,
-""\n"" , ""x y"" ] :
-u128 ,00 : calculatedFrom
-,	[ // " ++ [128512]%N ++ runes_of_ascii " emoji
-4294967296
-    , ""// no comment""
-    , 42
-    ,
-3,""{,}""
-    // packet A { u8 x, }
-    ]  :	charz} ,
-@calculatedFrom( ""a\\""
-)  Logon A ,chars  @lengthOf(Logon
-), @rightPad
-('0' )@tag(	0 ) @rightPad  ( '0' ) string Foo // trailing space 
-`a\`
-    ,
-}  packet packetx
-{repeat i64_
-    {  o @lengthOf(A) ,
-    },@tag(
-    42
-    ) repeat char[]
-    crc ,
-    @leftPad ( ) u16 roots , falsey @lengthOf( As) , repeat  Foo{ float32 f32a@calculatedFrom( ""`tick`"" )
-, len
-`
-`
-// a // b
-/// triple
-,
-    // packet A { u8 x, }
-    }, @leftPad
-('\x00' )	T@calculatedFrom( ""a	b"" ) `" ++ [28040; 24687; 31867; 22411]%N ++ runes_of_ascii "`,  char[]
-// c
-// " ++ [128512]%N ++ runes_of_ascii " emoji
-trueish `u8 x,` , @lengthOf(falsey
-    )
-    match
-    // " ++ [27880; 37322]%N ++ runes_of_ascii "
-    rootA
-    as BodyLength { // " ++ [128512]%N ++ runes_of_ascii " emoji
-[
-""CRC32"" ]: x ,
-// @lengthOf(
-// c
-42
-:
-// packet A { u8 x, }
-// `tick` ""quote"" 'q'
-BodyLength , // trailing space 
-} ,
-    }")).
-Eval vm_compute in ("<<<M1269>>>" ++ check (runes_of_ascii "packet a1{ repeat uint8x { zchar[
-    3 ]metadata@lengthOf(  chars ) `it's`
-, u8 packetx @calculatedFrom(""CRC32"" ) `two words`, repeat leftPad {
-match MetaDataX as
-    f32a{ [4294967296
-]
-: packetx, 255
-: As ,
-[ ""\n"",""\" ++ [233]%N ++ runes_of_ascii """ ,
-    007, """ ++ [128512]%N ++ runes_of_ascii """ , 7 ] :float
-, 0123456789 : /// triple
-u128  ""a\""b"": calculatedFrom ,
-    } ,
-match len	as u { [ 42 , 4294967296 ] : a1 , ""it's""
-    :rootA,7:
-lengthOf ,	""`tick`"" :rootA,
-4294967296	: calculatedFrom , }, repeat string MetaDataX `it's`
-, } , uint16 uint8x , } ,	string_ @lengthOf( u ) ,
-zchar[	0123456789 ]
-pack @calculatedFrom( """"/// triple
-) `u8 x,` , @lengthOf(
-    x_y_z ) @lengthOf( u128
-)
-@tag( 007)zchar[
-10 ]
-    _x `doc`	, string BodyLength ,
-// `tick` ""quote"" 'q'
-// `tick` ""quote"" 'q'
-i64
-msg_type
-`u8 x,`
-, f64 Pad`say ""hi""`
-, string
-// c
-//x
-float , f64 lengthOf @calculatedFrom( """ ++ [28040; 24687]%N ++ runes_of_ascii """ ),// " ++ [128512]%N ++ runes_of_ascii " emoji
-}options { // packet A { u8 x, }
-matchKey =
-    f32 ;}
-packet Foo {repeat
-T // packet A { u8 x, }
-,repeat string_ { i16 uint8x
-,	} // a // b
-, repeat falsey A`doc` , repeat	lengthOf
-    /// triple
-    i8i8
-    `tab	here`,
-repeat char[
-    10	]  x_y_z //
-``, //	t
-@leftPad ( ) @rightPad (
-) options1 `doc`
-,
-u32 packetx,	u8	float `crlf
-line` ,
-    } packet	tag {
-}
-// " ++ [128512]%N ++ runes_of_ascii " emoji
-")).
-Eval vm_compute in ("<<<M830>>>" ++ check (runes_of_ascii "packet chars { float{ match
-Header
-    as stringy{ // a // b
-1
-: i64_
-    ,65535  :
-T
-    ,
-007
-    :
-    string_ , 00 : pack ,
-}
-    ,
-    // @lengthOf(
-    i16 int@calculatedFrom(
-//	t
-//x
-""{,}""
-),
-char[ 255  ] trueish,
-}
-,
-    repeat string_
-    //	t
-    { trueish {
-match rootA as Logon
+    // c24
+8
+    // c25
+] Acct
+    // c27
+, repeat // c29a
+  // c29b
+InNote16 { InQty73 // c32a
+  // c32b
 {
-0
-: metadata
-10
-: tag,
-    },	matchKey {match
-    tag as lengthOf	{[
-""`tick`"" , 00] : Header , [ 4294967296 ]
-    :
-    tag , 4294967296
-:
-//
-/// triple
-leftPad
-, [
-""abc"",	65535 ,""a\""b""
-    , // a // b
-""// no comment""] : float ,},} // trailing space 
-,/// triple
-}, match BodyLength as	a1
-    {	65535: A
-255:	lengthOf ""\n""
-: roots
-, } ,	repeat repeatCount , charz trueish  `it's`
-    ,	} // a // b
-, char[]
-    //
-    tag @calculatedFrom( ""a\""b""
-    ) ,@calculatedFrom(""// no comment""
-)uint16 options1 `
-`
-    , } packet x_y_z
-{ @calculatedFrom( """ ++ [28040; 24687]%N ++ runes_of_ascii """  ) @tag( 0 )
-@lengthOf(
-falsey
-) zchar @calculatedFrom(
-    ""x y"" )
-, /// triple
-float64 stringy @lengthOf(
-    /// triple
-    matchKey
-// `tick` ""quote"" 'q'
-//x
-)// c
-, string_  ,@leftPad ( )
-    options1
-repeatCount`" ++ [233]%N ++ runes_of_ascii "` , }	packet
-    lengthOf
-    {// packet A { u8 x, }
+    // c33
+float32
+    // c34
+tag7 ,
+    // c36
+} // c37
+, // c38a
+  // c38b
+f32 // c39
+Acct // c40
+, // c41a
+  // c41b
+zchar[
+    // c42
+5 // c43
+] // c44
+sym // c45a
+  // c45b
+,
+    // c46
+} // c47
+, uint16
+    // c49
+Side2 // c50a
+  // c50b
+, // c51a
+  // c51b
+i32 lastPx // c53a
+  // c53b
+, // c54
+} // c55a
+  // c55b
+packet
+    // c56
+Fill // c57a
+  // c57b
+{ // c58
+repeat // c59
+InOrderid15 // c60
+{ zchar[ 8 // c63
+] // c64
+sym // c65
+, // c66a
+  // c66b
+repeat
+    // c67
+char[
+    // c68
+2 ] OrderId // c71
+, repeat
+    // c73
+Logon
+    // c74
+,
+    // c75
+InQty82 // c76
+{
+    // c77
+char[]
+    // c78
+Tail , repeat Logon // c82a
+  // c82b
+, float64
+    // c84
+price
+    // c85
+, f64
+    // c87
+Side2 // c88
+, // c89a
+  // c89b
 }
+    // c90
+, char[ // c92
+12 ] // c94a
+  // c94b
+venue // c95a
+  // c95b
+,
+    // c96
+char[ // c97
+4
+    // c98
+] // c99
+Px // c100
+, // c101a
+  // c101b
+} ,
+    // c103
+@rightPad (
+    // c105
+'0' // c106a
+  // c106b
+)
+    // c107
+char[ // c108
+2 // c109
+]
+    // c110
+venue // c111a
+  // c111b
+, // c112
+InPrice99 // c113a
+  // c113b
+{ // c114
+InAcct72
+    // c115
+{ // c116
+u8 pad0 // c118
+,
+    // c119
+} // c120
+,
+    // c121
+u32 // c122
+OrderId // c123a
+  // c123b
+,
+    // c124
+Logon ,
+    // c126
+}
+    // c127
+, // c128
+}
+    // c129
+root // c130a
+  // c130b
+packet // c131a
+  // c131b
+Reject
+    // c132
+{ zchar[ // c134a
+  // c134b
+9 ] msgKind // c137
+, u32 // c139
+venue
+    // c140
+, u16 // c142
+seqNo // c143a
+  // c143b
+@lengthOf(
+    // c144
+Body ) // c146a
+  // c146b
+, // c147a
+  // c147b
+match // c148
+venue // c149a
+  // c149b
+as Body
+    // c151
+{ // c152
+57 :
+    // c154
+Fill // c155a
+  // c155b
+, // c156a
+  // c156b
+8
+    // c157
+: Logon , // c160
+} , // c162
+u16 Tail @calculatedFrom( ""CRC32""
+    // c166
+) // c167
+, // c168a
+  // c168b
+} // c169
 ")).
-Eval vm_compute in ("<<<M3836>>>" ++ check (runes_of_ascii "root packet T {
-    //	t
-    //
-    @rightPad('\x00')
-    repeat metadata {
-        repeat i64 Z9_,
-    },
+Eval vm_compute in ("<<<M1724>>>" ++ check (runes_of_ascii "packet
+	chars {
+    i8
+	Z9_ ,
+
+    match 
+      // " ++ [128512]%N ++ runes_of_ascii " emoji
+  //	t
+  zchar
+    as
+Logon
+{ 
+00 :i8i8
+    [ 
+""// no comment""
+	, 42
+    ,
+    10,
+    ""it's""
+, 4294967296
+, 
+""`tick`"" ,
+    ""x y""	,
+	""a\""b""
+]
+:leftPad
+[
+
+""\" ++ [233]%N ++ runes_of_ascii """ ]
+
+    :
+
+A	[
+""abc""/// triple
+  	, 
+""1""  ] : zchar 
+,
+3
+
+    : x
+,  3:
+
+x_y_z  ,
+	}	,
+
+uint8x // a // b
+@calculatedFrom(
+
+    ""{,}"" )  //x
+
+,}	// `tick` ""quote"" 'q'
+packet
+    calculatedFrom
+
+{ int32
+T	,@lengthOf(
+float
+) f32a	len
+
+    ,@calculatedFrom( """ ++ [233]%N ++ runes_of_ascii "t" ++ [233]%N ++ runes_of_ascii """
+) 
+int32
+f32a  @lengthOf(	// c
+
+matchKey
+
+    )
+	`" ++ [233]%N ++ runes_of_ascii "`
+    ,
+
+charz
+    @calculatedFrom(	""x y""
+
+    )
+
+,
+	} root
+	packet
+stringy 	 //	t
+    { @lengthOf( Logon
+)int64
+    len
+        //x
+    @calculatedFrom(// `tick` ""quote"" 'q'
+		""CRC32""
+
+) ,T 	 // " ++ [27880; 37322]%N ++ runes_of_ascii "
+	  @calculatedFrom(
+
+    ""1""
+)	`line1
+line2`
+	,
+@tag( 255
+    )
+
+@tag( 7
+
+)  @tag(
+007
+    )
+	repeat
+
+    packetx
+len 
+	    //	t
+	// packet A { u8 x, }
+
+,
+    @tag(
+    1
+)
+	repeat	zchar[0
+	]  float
+
+,//
+  	@lengthOf( lengthOf
+	)	repeat x_y_z {
+char[ 10
+]
+    u
+
+    `
+`
+,
+
+    MetaDataX a1
+`u8 x,`	,
+    }  ,	@tag( 1
+)
+string
+
+repeatCount
+`" ++ [28040; 24687; 31867; 22411]%N ++ runes_of_ascii "`
+    ,
+    int8 int @calculatedFrom( ""// no comment"" ),	} packet asx{  @leftPad	(
+
+'\x00') char[
+    00
+]u8x@calculatedFrom(""" ++ [233]%N ++ runes_of_ascii "t" ++ [233]%N ++ runes_of_ascii """ ) , zchar[
+
+007
+	]
+asx
+    @calculatedFrom( 
+""" ++ [128512]%N ++ runes_of_ascii """  ), repeat 
+MetaDataX
+metadata `
+`
+
+    , }
+")).
+Eval vm_compute in ("<<<M380>>>" ++ check (runes_of_ascii "options {
+	StringPrefixLenType = u16;
+	ArrayPrefixLenType = u16;
 }
 
-options {
-    _x = char[];
-    tag = uint32
-    calculatedFrom = u16;
+packet SampleBinary {
+	uint16 MsgType `" ++ [28040; 24687; 31867; 22411]%N ++ runes_of_ascii "`,
+	u16 BodyLenght @lengthOf(Body) `" ++ [28040; 24687; 20307; 38271; 24230]%N ++ runes_of_ascii "`,
+	match MsgType as Body {
+		1 : Logon,
+		2 : Logout,
+		3 : Heartbeat,
+		4 : RiskControlRequest,
+		5 : RiskControlResponse,
+	},
+		@calculatedFrom(""CRC32"")
+	u32 Ckecksum `" ++ [26657; 39564; 21644]%N ++ runes_of_ascii "`,
+}
+
+packet Logon {
+	 @leftPad('0')
+	char[10] UserName `" ++ [29992; 25143; 21517]%N ++ runes_of_ascii "`,
+	string Password `" ++ [23494; 30721]%N ++ runes_of_ascii "`,
+	uint64 ClientId `" ++ [23458; 25143; 31471]%N ++ runes_of_ascii "ID`,
+	u16 HeartbeatInterval `" ++ [24515; 36339; 38388; 38548]%N ++ runes_of_ascii "`,
+}
+
+packet Logout {
+	  @rightPad('0')
+	char[10] UserName `" ++ [29992; 25143; 21517]%N ++ runes_of_ascii "`,
+	uint64 ClientId `" ++ [23458; 25143; 31471]%N ++ runes_of_ascii "ID`,
+}
+
+packet Heartbeat {
+}
+
+packet RiskControlRequest {
+	string UniqueOrderId `" ++ [21807; 19968; 35746; 21333; 21495]%N ++ runes_of_ascii "`,
+	char[16] ClOrdID `" ++ [23458; 25143; 35746; 21333; 21495]%N ++ runes_of_ascii "`,
+	char[3] MarketID `" ++ [24066; 22330]%N ++ runes_of_ascii "id`,
+	char[12] SecurityID `" ++ [35777; 21048; 20195; 30721]%N ++ runes_of_ascii "`,
+	char Side `" ++ [20080; 21334; 26041; 21521]%N ++ runes_of_ascii "`,
+	char OrderType `" ++ [35746; 21333; 31867; 22411]%N ++ runes_of_ascii "`,
+	u64 Price `" ++ [20215; 26684]%N ++ runes_of_ascii "`,
+	u32 Qty `" ++ [25968; 37327]%N ++ runes_of_ascii "`,
+	repeat string ExtraInfo `" ++ [38468; 21152; 20449; 24687]%N ++ runes_of_ascii "`,
+	repeat SubOrder {
+			char[16] ClOrdID `" ++ [23376; 35746; 21333; 21495]%N ++ runes_of_ascii "`,
+			u64 Price `" ++ [23376; 35746; 21333; 20215; 26684]%N ++ runes_of_ascii "`,
+			u32 Qty `" ++ [23376; 35746; 21333; 25968; 37327]%N ++ runes_of_ascii "`,
+		},
+}
+
+packet RiskControlResponse {
+	string UniqueOrderId `" ++ [21807; 19968; 35746; 21333; 21495]%N ++ runes_of_ascii "`,
+	i32 Status `" ++ [29366; 24577]%N ++ runes_of_ascii "`,
+	string Msg `" ++ [32467; 26524; 20449; 24687]%N ++ runes_of_ascii "`,
+	repeat Detail,
+}
+
+packet Detail {
+	string RuleName `" ++ [35268; 21017; 21517; 31216]%N ++ runes_of_ascii "`,
+	u16 Code `" ++ [21407; 22240; 20195; 30721]%N ++ runes_of_ascii "`,
+}")).
+Eval vm_compute in ("<<<M1465>>>" ++ check (runes_of_ascii "options {
+    StringPrefixLenType = u8;
+    ArrayPrefixLenType = u32;
+    FixedStringPadFromLeft = false;
+    FixedStringPadChar = ' ';
+}
+packet Party {
+    repeat i16 Qty,
+    repeat string Tail,
+    i8 OrderId,
+    i8 msgKind,
+}
+packet Ack {
+    Party,
+    repeat InRef20 {
+        Party,
+        int8 tag7,
+        char[5] OrderId,
+        zchar[7] Tail,
+        char[] count,
+        InPrice45 {
+            Party,
+            char[1] Px,
+        },
+    },
+    char[12] price,
+    int8 sym,
+}
+packet Reject {
+    repeat InPrice47 {
+        Party,
+    },
+    zchar[4] x,
+    repeat Ack,
+    zchar[2] Ref,
+    repeat Party,
+}
+packet Cancel {
+    Reject,
+    repeat string f1,
+    uint16 OrderId,
+    u8 Acct,
+    int8 msgKind,
+}
+root packet Fill {
+    u8 count,
+    char[] tag7,
+    zchar[7] Acct,
+    u32 OrderId,
+    u32 Note @lengthOf(Body),
+    match OrderId as Body {
+        106 : Cancel,
+        196 : Reject,
+        74 : Party,
+        75 : Ack,
+    },
+}
+")).
+Eval vm_compute in ("<<<M1475>>>" ++ check (runes_of_ascii "// top
+options // c0
+{
+    // c1
+LittleEndian
+    // c2
+= // c3
+true // c4
+;
+    // c5
+} // c6a
+  // c6b
+packet Logon { u8 // c10a
+  // c10b
+x
+    // c11
+, // c12
+} packet Logout
+    // c15
+{ // c16a
+  // c16b
+u16 reason // c18
+,
+    // c19
+}
+    // c20
+root // c21a
+  // c21b
+packet // c22a
+  // c22b
+Frame // c23
+{ i32
+    // c25
+Kind ,
+    // c27
+i32 // c28a
+  // c28b
+Kind2 // c29
+, // c30
+match // c31
+Kind
+    // c32
+as // c33a
+  // c33b
+Body
+    // c34
+{ 1 // c36a
+  // c36b
+:
+    // c37
+Logon // c38
+, // c39
+[ 2 // c41a
+  // c41b
+, // c42a
+  // c42b
+3 // c43
+, // c44
+4
+    // c45
+]
+    // c46
+:
+    // c47
+Logout // c48
+,
+    // c49
+100 // c50a
+  // c50b
+:
+    // c51
+Logon , // c53a
+  // c53b
+} // c54
+, // c55
+match // c56
+Kind2 as
+    // c58
+Trailer
+    // c59
+{ // c60
+0 // c61
+: // c62
+Logout // c63
+,
+    // c64
+} , } ")).
+Eval vm_compute in ("<<<M1998>>>" ++ check (runes_of_ascii "packet chars {
+}// c
+
+packet len {
+    repeat char[] Foo,
+    @rightPad('0')
+    zchar[007] a1 `say ""hi""`,
+    repeat BodyLength leftPad,
+}
+
+root packet u8x {
+    f64 lengthOf @calculatedFrom(""CRC32""),
+    string zchar @lengthOf(int) `crlf
+    line`,
+    int calculatedFrom,
+    @lengthOf(As)
+    match falsey as asx {
+        65535 : _x,
+        [1] : u,
+        007 : uint8x,
+        00 : f32a,
+        """ ++ [233]%N ++ runes_of_ascii "t" ++ [233]%N ++ runes_of_ascii """ : Packet,
+        [42, ""a\""b""] : len,
+    },
+    @lengthOf(stringy)
+    @calculatedFrom(""1"")
+    repeat A {
+        char[] lengthOf `it's`,
+    },
+    _x `" ++ [28040; 24687; 31867; 22411]%N ++ runes_of_ascii "`,
+    @leftPad('0')
+    match Foo as crc {
+        10 : trueish,
+        42 : Pad,
+        [4294967296, ""// no comment"", ""{,}""] : float,
+    },
+    @lengthOf(u8x)
+    a1 @calculatedFrom(""\" ++ [233]%N ++ runes_of_ascii """),
+}")).
+Eval vm_compute in ("<<<M39>>>" ++ check (runes_of_ascii "  options
+    {string_
+    //x
+    =char[ 7 ] ;} options { crc=float64 ; Logon
+    = false // a // b
+As
+    =
+    '0' f32a =
+char[] ; // packet A { u8 x, }
+T =
+00	}	root
+packet x { @calculatedFrom(
+""1"" )repeat zchar[
+    255
+] // " ++ [128512]%N ++ runes_of_ascii " emoji
+string_ , } root packet int {	@tag(4294967296) char[255 // packet A { u8 x, }
+]
+a1
+    ,repeat
+x ``, char[]  packetx
+@lengthOf( uint8x ) `u8 x,` , zchar[ 10 ]leftPad @calculatedFrom( ""a	b"" )
+, lengthOf @calculatedFrom( """"	) , @calculatedFrom(
+    /// triple
+    ""packet"" )
+    i32 matchKey , @rightPad (
+) zchar[ 1
+] A, u32
+Packet @calculatedFrom( ""{,}"" ) `a\`	,// c
+repeat char[00]Header	`say ""hi""`
+    //x
+    , stringy	trueish `// not a comment`, } 	 ")).
+Eval vm_compute in ("<<<M2010>>>" ++ check (runes_of_ascii "packet
+    i64_{
+    }
+    packet
+	crc 
+{
+} options
+    {  } root	packet	charz
+	{
+
+} packet//
+  trueish
+{
+repeat char[
+
+    255
+
+    ] lengthOf
+
+`" ++ [28040; 24687; 31867; 22411]%N ++ runes_of_ascii "` ,
+zchar[
+
+//	t
+	  /// triple
+    	00	// a // b
+
+]
+	x
+`it's`,	/// triple
+
+	repeat char[] 
+// `tick` ""quote"" 'q'
+  Packet
+`say ""hi""` 
+,@calculatedFrom(""x y"" // " ++ [27880; 37322]%N ++ runes_of_ascii "
+
+	) char[	1
+	]
+lengthOf	,
+    lengthOf `crlf
+line`,match charz
+as  MetaDataX
+
+{ ""a	b""
+
+    // " ++ [27880; 37322]%N ++ runes_of_ascii "
+// `tick` ""quote"" 'q'
+:  uint8x
+""\n"" :
+
+calculatedFrom } 
+,  @tag(
+10  ) float64
+	i8i8 @calculatedFrom(  """ ++ [128512]%N ++ runes_of_ascii """
+) `say ""hi""`,
+
+    @rightPad
+	( '\x00'  ) i32
+
+Foo `it's` ,
+	} ")).
+Eval vm_compute in ("<<<M1422>>>" ++ check (runes_of_ascii "packet u128
+    // c1
+{ // c2
+u8 // c3a
+  // c3b
+a , // c5a
+  // c5b
+} // c6
+root
+    // c7
+packet
+    // c8
+Msg // c9a
+  // c9b
+{ // c10
+u8 // c11
+k
+    // c12
+, // c13
+u24 // c14a
+  // c14b
+{ // c15
+u8 Hi
+    // c17
+, // c18a
+  // c18b
+u16
+    // c19
+Lo
+    // c20
+, // c21
+} , // c23a
+  // c23b
+repeat // c24a
+  // c24b
+i24 // c25
+{
+    // c26
+u32
+    // c27
+q
+    // c28
+,
+    // c29
+} , u128 // c32
+,
+    // c33
+u16
+    // c34
+float32x // c35a
+  // c35b
+, string // c37
+s , // c39a
+  // c39b
+} ")).
+Eval vm_compute in ("<<<M373>>>" ++ check (runes_of_ascii "root	packet chars
+{ falsey , uint64 f32a @lengthOf( lengthOf
+) , // c
+}MetaData T{ char[] As ,
+} // trailing space 
+packet
+tag {
+    i64
+    Foo @lengthOf(
+    a1 ),@calculatedFrom(""" ++ [128512]%N ++ runes_of_ascii """ ) @leftPad ( '\x00'// " ++ [128512]%N ++ runes_of_ascii " emoji
+)
+    // a // b
+    @leftPad('\x00')
+repeat Foo MetaDataX , } root
+packet body {
+repeat u64
+    MetaDataX `u8 x,` ,
+@rightPad
+    (
+    ' ' )
+charz	@lengthOf(matchKey ) ,	@calculatedFrom(
+""""
+    )len @lengthOf(tag )
+, }
+")).
+Eval vm_compute in ("<<<M1509>>>" ++ check (runes_of_ascii "options {
+    len = 255
+    tag = """ ++ [233]%N ++ runes_of_ascii "t" ++ [233]%N ++ runes_of_ascii """
 }
 
 packet packetx {
-    @leftPad(' ')
-    int trueish,
-    packetx {
-        leftPad @lengthOf(string_),// `tick` ""quote"" 'q'
-        repeat o string_,
-        match stringy as packetx {
-            0 : pack,
-            // @lengthOf(
-            ""CRC32"" : tag,
-            // trailing space 
-            """ ++ [128512]%N ++ runes_of_ascii """ : Z9_,
-            4294967296 : chars,
-            007 : calculatedFrom,
-            10 : u8x,
-        },
-    },
-    repeat BodyLength {
-        //	t
-        repeat char[3] metadata `a\`,
-        repeat char pack `a\`,
-        char Header @calculatedFrom(""// no comment""),
-        uint32 roots @lengthOf(i64_),
-    },
-    // a // b
-    // trailing space 
-    pack,
-    repeat len Header `
-    `,
-    f64 f32a,
-    char[] x,
-    Header @lengthOf(a1),
-    asx @lengthOf(calculatedFrom),
-}
-
-MetaData roots {
-    options1 As,
-    string_ float `{ , }`,// trailing space 
-}")).
-Eval vm_compute in ("<<<M3751>>>" ++ check (runes_of_ascii "
-
-  options
-
-    { StringPrefixLenType=  u8 
-;
-    ArrayPrefixLenType =	u8
-;  FixedStringPadFromLeft = true ;
-
-    FixedStringPadChar
-
-    =' ';
-
-    }
-    packet	Logout {
-repeat string 
-Px
-, repeat
-string
-    seqNo ,
-    InMsgkind64
-{uint16
-    OrderId , char[] count, 
-repeat
-	i32 venue ,}
-    ,
-}
-	packet
-Heartbeat {float32
-    tag7,
-repeat 
-InPrice50	{repeat 
-char[ 5 ] lastPx
-
-    , InRef42
-	{	u8
-    pad0
-
-    , }
-	, 
-uint32 Acct , repeat  Logout, repeat
-    char[	5]  Qty 
-,	}, repeat
-InSeqno30{repeat 
-Logout
-
-,
-
-}
-    ,@leftPad
-
-    ( '0'
-)
-    char[
-12
-
-]  Acct ,char[]Side2,
-    repeat
-string msgKind , } packet
-
-    Ack
-
-    {
-Heartbeat  ,char[  8
-
-    ]
-    seqNo,
-
-    float64  clOrdID, 
-}
-
-packet	Trade{  char[] OrderId
-	, f64 Side2	,zchar[	8
-]
-	f1 , string
-Qty
-
-,  float64 
-seqNo, repeat	Logout ,} packet Order{	f32
-
-    OrderId , repeat  u8 x
-, Ack
-,
-	zchar[  7  ]Note
-,
-	} root
-
-    packet
-
-Logon  {
-
-    @rightPad ( '\x00'
-
-) char[
-9 
-]
-
-f1
-	, }
-")).
-Eval vm_compute in ("<<<M4283>>>" ++ check (runes_of_ascii "MetaData o {
-    char[255] BodyLength,
-}
-
-packet crc {
-    @tag(7)
-    calculatedFrom @lengthOf(Header),
-    len {
-        float {
-            i32 T,
-            stringy string_,
-            char[65535] Packet @lengthOf(a1) ``,
-            falsey {
-                u16 Logon `{ , }`,
-            },
-        },
-        repeat falsey,
-        repeat u8 Logon,
-    },
-    zchar[65535] lengthOf @lengthOf(asx) `line1
-        line2`,
-    @rightPad('0')
-    int16 f32a,
-    @rightPad('\x00')
-    char[] len `" ++ [28040; 24687; 31867; 22411]%N ++ runes_of_ascii "`,
-    match string_ as string_ {
-        [""a\\"", 10, 007, 0123456789] : As,
-        [""`tick`""] : metadata,
-        ""\n"" : falsey,
-        // `tick` ""quote"" 'q'
-        [3, """ ++ [233]%N ++ runes_of_ascii "t" ++ [233]%N ++ runes_of_ascii """, ""CRC32""] : lengthOf,
-        00 : x_y_z,
-    },
-    packetx {
-        repeat a1 `it's`,
-        stringy `{ , }`,
-        match T as MetaDataX {
-            ""CRC32"" : lengthOf,
-        },
-    },
-}
-
-MetaData tag {
-    //x
-}
-
-packet Z9_ {
-    i16 rootA `
-        `,//	t
-}")).
-Eval vm_compute in ("<<<M3629>>>" ++ check (runes_of_ascii "options 
-	    //	t
-  {
-	As
-
-    =false 
-}	//	t
-
-packet
-falsey	{
-
-    @lengthOf(float	// packet A { u8 x, }
-    ) 
-@calculatedFrom(
-    ""\n""
-	) u32
-
-    As
-    , match leftPad 
-as repeatCount {0:
-Z9_  ,
-
-1 : repeatCount
-    ,
-
-[// trailing space 
-	  65535 // c
-	]
-
-: Pad 
-00:	packetx	""a\\"":
-packetx
-, 00 : 
-crc
-
-    ,
-}
-,
-
-    repeat Packet  ,
-repeat
-	float  /// triple
-
-{u128
-@calculatedFrom( """ ++ [28040; 24687]%N ++ runes_of_ascii """ ) `say ""hi""`
-
-    ,
-u64  Foo `say ""hi""`
-
-,} ,
-	@leftPad
-( '\x00' )
-    @tag(	1
-)
-
-@calculatedFrom(  ""`tick`""
-
-    ) f64 lengthOf
-,
-
-    @rightPad	(
-
-    '0'  )  @leftPad
-(
-	)@lengthOf( f32a
-
-) repeat 
-i64_	x_y_z
-,@rightPad( '\x00'	)
-    o@calculatedFrom( """"
-	)
-
-`a\`,  
-      // a // b
-//x
-	asx{	repeat T
-	chars
-	``,
-repeat
-    char[  0]string_
-
-    , 
-}	,
-repeat  char 
-repeatCount
-`u8 x,` ,
-zchar[7 ]T 
-@calculatedFrom(
-    // packet A { u8 x, }
-	  //x
-""a\\"" ), }")).
-Eval vm_compute in ("<<<M4193>>>" ++ check (runes_of_ascii "root packet lengthOf {
-}//x
-
-packet _x {
-    //
-    @calculatedFrom(""a	b"")
-    @tag(65535)
-    char[65535] matchKey,
-}
-
-packet leftPad {
-    u16 leftPad,
-    @tag(0123456789)
-    // " ++ [128512]%N ++ runes_of_ascii " emoji
-    // @lengthOf(
-    char[1] f32a @lengthOf(options1),
-    string_ BodyLength,
-    Foo `" ++ [28040; 24687; 31867; 22411]%N ++ runes_of_ascii "`,
-    @lengthOf(u128)
-    i32 trueish @lengthOf(chars) `it's`,
-    u8x u8x `{ , }`,
-    match Foo as leftPad {
-        // c
-        0123456789 : calculatedFrom,
-    },
-    @leftPad('0')
-    int32 rootA `crlf
-        line`,
-    match BodyLength as pack {
-        [10] : stringy,
-        10 : stringy,
-        1 : u,
-    },
-    match zchar as calculatedFrom {
-        """ ++ [128512]%N ++ runes_of_ascii """ : len,
-    },
-}
-
-MetaData Z9_ {
-    Pad As `line1
-        line2`,
-    Z9_ zchar,
-    int8 repeatCount,
-    i64_ trueish,
-    A uint8x,// trailing space 
-    leftPad Logon `two words`,
 }
 
 options {
-}")).
-Eval vm_compute in ("<<<M61>>>" ++ check (runes_of_ascii "  root packet pack {zchar[	255
-    ] T`a\`
-    , char[] Z9_ @lengthOf(
-// c
-//x
-u8x  )
-    `two words` , A
-{ repeat  char[]
-    x  ``,
-// @lengthOf(
-/// triple
-repeat zchar[ //
-007  ] i64_
-    ,  } , uint8x @lengthOf(
-    i64_
-    )	``,
-}
-packet	calculatedFrom{ @leftPad ( )
-u32	calculatedFrom``
-,
-@tag(0123456789 // " ++ [27880; 37322]%N ++ runes_of_ascii "
-)@leftPad ( ) int8 _x
-``
-,
-match rootA as  u { // c
-10
-: Z9_ , 0123456789: float
-//
-// c
-0: float ,
-[ ""it's""/// triple
-]
-:
-packetx , } ,// `tick` ""quote"" 'q'
-@lengthOf( string_ ) zchar[ 0123456789
-    ] body @lengthOf(
-repeatCount	) ,
-    @calculatedFrom( ""\n"" ) match // `tick` ""quote"" 'q'
-body as u8x{ ""a\""b""
-    :T , [ ""\n"" ,// " ++ [27880; 37322]%N ++ runes_of_ascii "
-""" ++ [233]%N ++ runes_of_ascii "t" ++ [233]%N ++ runes_of_ascii """, ""CRC32"", 255 ,7
-, ""// no comment""
-,
-    """ ++ [28040; 24687]%N ++ runes_of_ascii """] : x , 255	: packetx } , @tag(65535 ) repeat
-    // a // b
-    Header
-zchar , } MetaData Logon { }
-")).
-Eval vm_compute in ("<<<M3847>>>" ++ check (runes_of_ascii "root packet body {
-    @tag(255)
-    chars calculatedFrom,
-    //	t
-    @rightPad('0')
-    @calculatedFrom(""a	b"")
-    @rightPad()
-    stringy @calculatedFrom(""it's""),
-    repeat string trueish,
-    @calculatedFrom("""")
-    asx @lengthOf(options1) `doc`,
-    u32 Logon,
-    float64 i64_ @lengthOf(metadata),
-    @calculatedFrom(""`tick`"")
-    chars @lengthOf(len) `line1
-        line2`,
-    f32a {
-        match trueish as roots {
-            ""1"" : body,
-            ""// no comment"" : Packet,
-            [42, ""it's"", 0, ""it's""] : charz,
-            ""a\""b"" : stringy,
-            // a // b
-            //x
-        },
-    },
-    uint8x {
-        zchar[10] As,
-    },
-    @tag(0123456789)
-    @rightPad('0')
-    @calculatedFrom("""")
-    asx @lengthOf(trueish),
+    repeatCount = '\x00';
+    x = 4294967296
+    len = false;
+    A = false;
+    Packet = """";
 }
 
-root packet trueish {
-}")).
-Eval vm_compute in ("<<<M4390>>>" ++ check (runes_of_ascii "packet a1 {
-    @tag(007)
-    match packetx as a1 {
-        [0123456789, 0123456789] : tag,
-        ""\n"" : uint8x,
-        00 : Z9_,
-        ""\" ++ [233]%N ++ runes_of_ascii """ : i64_,
-        [""// no comment"", ""`tick`""] : asx,
-    },//
-}
-
-options {
-    crc = '0'
-    Logon = """";
-    // packet A { u8 x, }
-    falsey = 4294967296;
-}
-
-packet string_ {
-    repeat leftPad {
-        repeat uint64 x,
-        u8 uint8x `u8 x,`,
-    },
-    repeat tag options1,// trailing space 
-    int64 trueish @lengthOf(asx) `
-    `,
-    // c
-    match i8i8 as MetaDataX {
-        ""a\\"" : falsey,
-    },
-    repeat char[1] As,
-    zchar[42] Pad @lengthOf(repeatCount),
-    @leftPad('\x00')
-    uint64 string_ `say ""hi""`,
-    @calculatedFrom(""CRC32"")
-    char MetaDataX,// packet A { u8 x, }
-}")).
-Eval vm_compute in ("<<<M840>>>" ++ check (runes_of_ascii "packet a1  { @tag(00 )
-    charz{
-    // @lengthOf(
-    char[ 007 ] i8i8	@calculatedFrom( ""// no comment"" ) ,
-    float {char[  1 ] Packet @lengthOf(len ) `crlf
-line` , }, }	, @rightPad//x
-(' ' ) match x_y_z
-as repeatCount
-    {
-// c
-//	t
-""`tick`""  :
-    pack
-,  ""`tick`"":
-    u ""abc""
-:
-u128, [ """ ++ [233]%N ++ runes_of_ascii "t" ++ [233]%N ++ runes_of_ascii """ , ""x y""
-//
-//	t
-]//	t
-:float
-,
-0123456789
-/// triple
-// a // b
-:calculatedFrom },
-repeat zchar[ 1 //x
-]
-    zchar ,	char[ 255 ]  matchKey , repeat float { match
-chars  as asx {
-[ 0
-,
-0 ,	""""  ] :i64_ 00 : BodyLength  ,
-//
-// " ++ [27880; 37322]%N ++ runes_of_ascii "
-""// no comment""
-:a1 , } , repeat
-    T i64_ ,
-// packet A { u8 x, }
-// c
-repeat char[ 0 ] len ,
-}// " ++ [27880; 37322]%N ++ runes_of_ascii "
-, zchar[42 ] uint8x @calculatedFrom(
-    //	t
-    ""// no comment""
-),}
-")).
-Eval vm_compute in ("<<<M284>>>" ++ check (runes_of_ascii "packet Pad
-{char[ 007] string_ ,// @lengthOf(
-@lengthOf( zchar
-)string rootA
-, @lengthOf(T ) char trueish @lengthOf(
-    zchar
-) `line1
-line2`, repeat f64 calculatedFrom , @calculatedFrom(""it's"" ) leftPad
-    `it's`
-    , stringy{
-int8 Packet @lengthOf( metadata
-)
-`tab	here`
-    ,
-A ,
-    match charz as uint8x{ 3
-:  MetaDataX ,
-    1
-    :
-    //	t
-    charz ""a	b""
-    :
-    //x
-    msg_type	,
-    //x
-    [
-0 , 10 , ""// no comment"" ,""\" ++ [233]%N ++ runes_of_ascii """
-] : A , // @lengthOf(
-""\n"" :
-trueish , },	},
-    @calculatedFrom( ""a\\"")
-char[ 7 ] u @calculatedFrom( ""a\\""),
-    //	t
-    @tag(	7) o
-{	As `it's`	,} ,} packet u	{
-}packet stringy {
-@tag(0123456789 )string pack @lengthOf( Pad), }")).
-Eval vm_compute in ("<<<M4042>>>" ++ check (runes_of_ascii "// a // b
-packet matchKey {
-    @rightPad(' ')
-    @tag(007)
-    @lengthOf(float)
-    repeat packetx,
-    // @lengthOf(
-    @calculatedFrom(""a\""b"")
-    /// triple
-    @tag(255)
-    @tag(00)
-    Pad @calculatedFrom(""" ++ [28040; 24687]%N ++ runes_of_ascii """) `{ , }`,
-}
-
-root packet string_ {
-    repeat Logon {
-        match Z9_ as float {
-            ""packet"" : packetx,
-            [""CRC32"", 42, 00, ""packet""] : Foo,
-            """ ++ [28040; 24687]%N ++ runes_of_ascii """ : BodyLength,
-            [""CRC32""] : x_y_z,
-            00 : packetx,
-            7 : rootA,
-        },
-    },
-    repeat metadata {
-        u16 Logon `
-                `,
-        matchKey @calculatedFrom(""""),
-        repeat char[] leftPad,
-    },
-}")).
-Eval vm_compute in ("<<<M4196>>>" ++ check (runes_of_ascii "options {
-    // c1
-    LittleEndian = false;// c5a
-    // c5b
-    StringPrefixLenType = u32;// c9a
-    // c9b
-    ArrayPrefixLenType = u16;// c13
-}// c14a
-
-// c14b
-packet Party {
-    // c17
-    @leftPad('0')
-    // c21
-    char[12] Ref,
-    // c26
-    repeat char[6] x,// c32
-}
-
-// c33
-packet Logon {
-    uint32 clOrdID,// c39a
-    // c39b
-    Party,
-}// c42
-
-root packet Ack {
-    zchar[2] f1,// c51a
-    // c51b
-    u32 seqNo,// c54a
-    // c54b
-    u32 Side2 @lengthOf(Body),
-    match seqNo as Body {
-        // c65
-        43 : Logon,
-        // c69a
-        // c69b
-        93 : Party,
-    },// c75a
-    // c75b
-}")).
-Eval vm_compute in ("<<<M259>>>" ++ check (runes_of_ascii "MetaData Header
-{
-} root	packet chars
-    { char[	00
-]
-MetaDataX `u8 x,` ,repeat Foo stringy // " ++ [128512]%N ++ runes_of_ascii " emoji
-, @lengthOf( u8x ) char[] Foo , match  Header as
-leftPad { [
-""abc"" ,
-    255
-, """ ++ [128512]%N ++ runes_of_ascii """ , """" ]	:charz
-,007
-    // packet A { u8 x, }
-    : uint8x , 0 :asx , """"
-    // " ++ [27880; 37322]%N ++ runes_of_ascii "
-    : MetaDataX , } ,	char[]
-uint8x , @tag(  1 )
-    i8i8{ x Packet `doc`	, zchar[ 4294967296  ] metadata @calculatedFrom(
-    ""a\\"" ) `" ++ [233]%N ++ runes_of_ascii "`, zchar[  10]//
-crc
-    @lengthOf( Foo
-    // @lengthOf(
-    ) `crlf
-line` ,
-} ,}	MetaData
-msg_type {
-    char[] calculatedFrom `line1
-line2`,
-} // `tick` ""quote"" 'q'")).
-Eval vm_compute in ("<<<M3716>>>" ++ check (runes_of_ascii "options {
-    // " ++ [27880; 37322]%N ++ runes_of_ascii "
-    tag = ' '
-    leftPad = 255
-    x_y_z = uint32;// a // b
-    falsey = """ ++ [28040; 24687]%N ++ runes_of_ascii """
-    As = ""packet"";
-}
-
-packet As {
-    @lengthOf(u)
-    repeat u8 i8i8 `two words`,
-    @tag(00)
-    @tag(1)
-    char[255] a1 @lengthOf(zchar),
-    i32 u,
-    repeat float32 tag,
+MetaData x {
     //
-    A,
-    repeat uint8 string_,
-    @calculatedFrom(""a\""b"")
-    @lengthOf(Header)
-    u {
-        int8 asx ``,
-        i32 Foo @lengthOf(tag) `
-        `,
-    },
-    float64 pack,
-    @tag(10)
-    Foo,
-    match repeatCount as u8x {
-        42 : o,
-    },
-}")).
-Eval vm_compute in ("<<<M4311>>>" ++ check (runes_of_ascii "
-root
-	packet
-roots {}
-packet As {
-@calculatedFrom(
-
-    """ ++ [28040; 24687]%N ++ runes_of_ascii """
-) 
-i16 msg_type
-
-`" ++ [28040; 24687; 31867; 22411]%N ++ runes_of_ascii "` 
-, 
-repeat  // trailing space 
-	repeatCount
-
-{
-	repeat
-pack
-
-msg_type`crlf
-line` , //
-    match	repeatCount	as 
-_x	{ ""`tick`""  : // a // b
-  trueish , 	 // c
-
-[ ""\n""
-
-    ,
-	65535
-, 
-255
-    ,
-    ""abc"",
-
-0123456789 
-]
-
-    : options1,}//
-
-	,	//x
-  	}	,
-}
-    // trailing space 
-  //
-    MetaData x_y_z
-
-    {	options1
-chars , int32 
-leftPad
-
-`{ , }`	,  string
-    i64_
-	`say ""hi""`
-,
-	int32 BodyLength 
-`a\`
-,	}")).
-Eval vm_compute in ("<<<M4048>>>" ++ check (runes_of_ascii "root packet metadata {
-    repeat zchar[255] matchKey `line1
+    // `tick` ""quote"" 'q'
+    uint32 roots,
+    lengthOf o `
+    `,
+    u32 x_y_z `line1
     line2`,
-    @tag(0)
-    // " ++ [128512]%N ++ runes_of_ascii " emoji
-    match A as msg_type {
-        ""packet"" : len,
-        255 : roots,
-        """ ++ [233]%N ++ runes_of_ascii "t" ++ [233]%N ++ runes_of_ascii """ : leftPad,
-        ""CRC32"" : Z9_,
-        //	t
-    },
-    @leftPad(' ')
-    char[] Logon,//x
-    char[3] T `{ , }`,
-    uint64 metadata @calculatedFrom(""1""),
-    @rightPad()
-    match u as len {
-        [""\" ++ [233]%N ++ runes_of_ascii """, ""1""] : f32a,
-    },
-    u128 falsey,
-    @calculatedFrom(""" ++ [28040; 24687]%N ++ runes_of_ascii """)
-    As @lengthOf(falsey),
-}")).
-Eval vm_compute in ("<<<M1365>>>" ++ check (runes_of_ascii "root packet
-    /// triple
-    stringy
-    { stringy
-pack
-, char[1 ] T // @lengthOf(
-@calculatedFrom( ""// no comment""
-),  zchar[ 4294967296 ] stringy
-@calculatedFrom(
-""CRC32"" )`doc` , zchar[1
-    ]
-body @lengthOf( A
-) ,	asx@lengthOf(
-    Packet ) `two words` // packet A { u8 x, }
-,leftPad @calculatedFrom( ""\n"" ) `it's` ,i16
-f32a
-    // @lengthOf(
-    , }MetaData
-metadata{
-char[	7 ]  crc , options1	u128 `two words` , falsey calculatedFrom, string_ As //x
-, }")).
-Eval vm_compute in ("<<<M3904>>>" ++ check (runes_of_ascii "root packet i64_ {
-    packetx {
-        string zchar @calculatedFrom(""`tick`"") `
-        `,
-        zchar[1] metadata `doc`,
-        Foo @calculatedFrom(""CRC32""),
-    },
-    char[] roots `crlf
+    int64 msg_type `crlf
     line`,
-    @calculatedFrom(""it's"")
-    char rootA,
-    @tag(7)
-    charz o `it's`,// a // b
-    char[007] msg_type @lengthOf(x_y_z),
-    repeat zchar[007] repeatCount `say ""hi""`,
-    match i64_ as rootA {
-        [""abc""] : T,
-    },
-    repeat chars,
-}")).
-Eval vm_compute in ("<<<M4344>>>" ++ check (runes_of_ascii "packet i64_ {
-    @lengthOf(Foo)
-    // `tick` ""quote"" 'q'
-    @lengthOf(calculatedFrom)
-    o @calculatedFrom(""{,}""),
-    uint16 lengthOf @calculatedFrom(""" ++ [128512]%N ++ runes_of_ascii """),
-    char[007] trueish,
-    @tag(00)
-    @tag(007)
-    // a // b
-    // " ++ [128512]%N ++ runes_of_ascii " emoji
-    float @calculatedFrom(""\n""),
-    charz A,
-    Logon @calculatedFrom(""// no comment"") `
-    `,
-    @lengthOf(msg_type)
-    BodyLength As `a\`,
-    zchar[10] zchar @calculatedFrom("""") `doc`,
-}")).
-Eval vm_compute in ("<<<M1124>>>" ++ check (runes_of_ascii "MetaData
-    // `tick` ""quote"" 'q'
-    o { i64 crc , }
-packet falsey{	@tag( 0 )
-zchar @calculatedFrom(""x y"" ),crc // `tick` ""quote"" 'q'
-{
-char[ 7 ] Packet
-@lengthOf( asx ) , } ,
-@tag( 4294967296) @calculatedFrom(
-""" ++ [128512]%N ++ runes_of_ascii """ ) x_y_z trueish ,
-    @calculatedFrom(
-    ""\n"") // c
-falsey
-    Packet
-,float { T o
-    ,	zchar[ 4294967296 ]chars
-    , zchar[7] options1@calculatedFrom(  ""a\\"" ) ,
-repeat float32 Pad
-    , }
-, }
-")).
-Eval vm_compute in ("<<<M756>>>" ++ check (runes_of_ascii "//x
-options
-{  } packet As{ @leftPad() Packet  `a\`
-,// c
-}	packet i64_	{
-i16 charz
-    `tab	here`, @calculatedFrom(
-""" ++ [233]%N ++ runes_of_ascii "t" ++ [233]%N ++ runes_of_ascii """ ) @lengthOf(
-Packet )
-char[ 4294967296 ] msg_type	@lengthOf(
-leftPad ) ,  } MetaData o { x falsey ,// packet A { u8 x, }
-i16 u8x	`crlf
-line`, zchar[4294967296 ] // @lengthOf(
-u8x `" ++ [28040; 24687; 31867; 22411]%N ++ runes_of_ascii "` , char[
-3 ]Header	, x
-//
-// @lengthOf(
-string_
-    // " ++ [27880; 37322]%N ++ runes_of_ascii "
-    ,
-// c
-//	t
-} // @lengthOf(")).
-Eval vm_compute in ("<<<M3837>>>" ++ check (runes_of_ascii "options {
-    LittleEndian = false;
-    StringPrefixLenType = u32;
-    ArrayPrefixLenType = u16;
-}
-
-packet Party {
-    @leftPad('0')
-    char[12] Ref,
-    repeat char[6] x,
-}
-
-packet Logon {
-    uint32 clOrdID,
-    Party,
-}
-
-root packet Ack {
-    zchar[2] f1,
-    u32 seqNo,
-    u32 Side2 @lengthOf(Body),
-    match seqNo as Body {
-        43 : Logon,
-        93 : Party,
-    },
-}")).
-Eval vm_compute in ("<<<M1129>>>" ++ check (runes_of_ascii "root packet
-    // packet A { u8 x, }
-    string_ { @lengthOf( a1
-// @lengthOf(
-// c
-) @lengthOf( f32a ) Foo@lengthOf(// `tick` ""quote"" 'q'
-As ) `tab	here` ,
-}root // trailing space 
-packet crc { @calculatedFrom( // " ++ [27880; 37322]%N ++ runes_of_ascii "
-""1"") float32 pack , //	t
-} options {len = '\x00' ;uint8x
-// @lengthOf(
-// a // b
-= 0 ; Z9_
-= zchar[
-3	];tag// `tick` ""quote"" 'q'
-= ""a\""b""
-    ; }
-")).
-Eval vm_compute in ("<<<M4218>>>" ++ check (runes_of_ascii "options {
-    BodyLength = ""{,}""
-    tag = ""// no comment"";
-}
-
-options {
-    charz = '\x00';// a // b
-    repeatCount = 255;
-    _x = """ ++ [128512]%N ++ runes_of_ascii """;
-    Foo = '0'
-    a1 = '0'
-    //x
-    //
-}
-
-root packet falsey {
-    i64 packetx @lengthOf(Header) `" ++ [28040; 24687; 31867; 22411]%N ++ runes_of_ascii "`,
-    len @lengthOf(roots) `a\`,
-    zchar @lengthOf(MetaDataX) `line1
+    string repeatCount `line1
     line2`,
-}// packet A { u8 x, }")).
-Eval vm_compute in ("<<<M58>>>" ++ check (runes_of_ascii "
-MetaData// `tick` ""quote"" 'q'
-asx
-{
-    // packet A { u8 x, }
-    char
-// @lengthOf(
-//x
-Z9_ , } options{ Pad
-= '0' /// triple
-} options { trueish = ""it's"" matchKey =
-    false
-    ; T = float32 ;
-    /// triple
-    len= ' ' ; string_
-=
-    i16 ; } root// `tick` ""quote"" 'q'
-packet f32a{char[]
-    // trailing space 
-    u8x
-    , }")).
-Eval vm_compute in ("<<<M4209>>>" ++ check (runes_of_ascii "options {
-    body = 0123456789
-}
-
-packet tag {
-    o @lengthOf(packetx) `" ++ [28040; 24687; 31867; 22411]%N ++ runes_of_ascii "`,
-    repeat options1 {
-        float64 o `doc`,
-    },
-}
-
-root packet float {
-    // trailing space 
-    @calculatedFrom(""a	b"")
-    //	t
-    float32 BodyLength `crlf
-        line`,
-    repeat f32a Header `say ""hi""`,
-    int8 falsey `{ , }`,
+    u128 stringy,
 }")).
-Eval vm_compute in ("<<<M1280>>>" ++ check (runes_of_ascii "
-root packet  uint8x
-{x_y_z zchar`{ , }` ,// `tick` ""quote"" 'q'
-}
-    root packet zchar { //x
-@tag(42 ) @leftPad (
-    //
-    '\x00' ) len options1 `two words`
-    , repeat char[ 255]_x ,} options {
-options1 // " ++ [27880; 37322]%N ++ runes_of_ascii "
-='\x00'msg_type= 0123456789 leftPad =// a // b
-' ' ; T	= /// triple
-true roots	= ""abc""//
-;}")).
-Eval vm_compute in ("<<<M1415>>>" ++ check (runes_of_ascii "root packet packet Foo // " ++ [128512]%N ++ runes_of_ascii " emoji
-{ } options {
-    // a // b
-    tag // `tick` ""quote"" 'q'
-= //	t
-""""
-    ; u8x = zchar[0  ] }
-MetaData
-    int {zchar[ 10]
-lengthOf	`` , i64 u8x`// not a comment` ,MetaDataX pack// `tick` ""quote"" 'q'
-`crlf
-line`
-, Logon charz `crlf
-line`
-    ,
-    // a // b
-    }
+Eval vm_compute in ("<<<M320>>>" ++ check (runes_of_ascii "packet Pad { int16 charz `` ,
+    @calculatedFrom(""a\""b"" // `tick` ""quote"" 'q'
+)
+    @tag(	1  )
+    zchar[ //	t
+4294967296
+    // packet A { u8 x, }
+    ] A, @rightPad () chars , // " ++ [27880; 37322]%N ++ runes_of_ascii "
+uint8x { zchar[
+0  ] // @lengthOf(
+zchar // " ++ [27880; 37322]%N ++ runes_of_ascii "
+`tab	here`
+, msg_type f32a ,u8 roots@calculatedFrom(""x y""  ) `crlf
+line`, /// triple
+As rootA
+// " ++ [27880; 37322]%N ++ runes_of_ascii "
+//
+, } , }
 ")).
-Eval vm_compute in ("<<<M1517>>>" ++ check (runes_of_ascii "root packet Foo // " ++ [128512]%N ++ runes_of_ascii " emoji
-{ } options {
-    // a // b
-    tag // `tick` ""quote"" 'q'
-= //	t
-""""
-    ; u8x = zchar[0  ] }
-MetaData
-    int {zchar[ int32]
-lengthOf	`` , i64 u8x`// not a comment` ,MetaDataX pack// `tick` ""quote"" 'q'
-`crlf
-line`
-, Logon charz `crlf
-line`
-    ,
-    // a // b
-    }
-")).
-Eval vm_compute in ("<<<M3290>>>" ++ check (runes_of_ascii "// top
-packet
-    // c0
-o
-    // c1
-{
-    // c2
-@tag(
-    // c3
-42
-    // c4
+Eval vm_compute in ("<<<M1205>>>" ++ check (runes_of_ascii "// top
+packet // c0a
+  // c0b
+o // c1
+{ // c2a
+  // c2b
+@tag( // c3a
+  // c3b
+42 // c4a
+  // c4b
 )
     // c5
 repeat
     // c6
-x
-    // c7
-{
-    // c8
-char[
-    // c9
-0123456789
-    // c10
-]
-    // c11
-i64_
-    // c12
+x { char[ // c9a
+  // c9b
+0123456789 // c10
+] // c11a
+  // c11b
+i64_ // c12a
+  // c12b
 ,
     // c13
-}
-    // c14
-,
+} ,
     // c15
-}
-    // c16
-options
-    // c17
-{
-    // c18
-}
-    // c19
+} options // c17a
+  // c17b
+{ // c18a
+  // c18b
+} // c19a
+  // c19b
 ")).
-Eval vm_compute in ("<<<M1486>>>" ++ check (runes_of_ascii "root packet Foo // " ++ [128512]%N ++ runes_of_ascii " emoji
-{ } options {
-    // a // b
-    tag // `tick` ""quote"" 'q'
-= //	t
-""""
-    ; u8x = zchar[0  } ]
-MetaData
-    int {zchar[ 10]
-lengthOf	`` , i64 u8x`// not a comment` ,MetaDataX pack// `tick` ""quote"" 'q'
-`crlf
-line`
-, Logon charz `crlf
-line`
-    ,
-    // a // b
-    }
-")).
-Eval vm_compute in ("<<<M1449>>>" ++ check (runes_of_ascii "root packet Foo // " ++ [128512]%N ++ runes_of_ascii " emoji
-{ } options {
-    // a // b
-    tag // `tick` ""quote"" 'q'
- //	t
-""""
-    ; u8x = zchar[0  ] }
-MetaData
-    int {zchar[ 10]
-lengthOf	`` , i64 u8x`// not a comment` ,MetaDataX pack// `tick` ""quote"" 'q'
-`crlf
-line`
-, Logon charz `crlf
-line`
-    ,
-    // a // b
-    }
-")).
-Eval vm_compute in ("<<<M1477>>>" ++ check (runes_of_ascii "root packet Foo // " ++ [128512]%N ++ runes_of_ascii " emoji
-{ } options {
-    // a // b
-    tag // `tick` ""quote"" 'q'
-= //	t
-""""
-    ; u8x = as 0  ] }
-MetaData
-    int {zchar[ 10]
-lengthOf	`` , i64 u8x`// not a comment` ,MetaDataX pack// `tick` ""quote"" 'q'
-`crlf
-line`
-, Logon charz `crlf
-line`
-    ,
-    // a // b
-    }
-")).
-Eval vm_compute in ("<<<M1524>>>" ++ check (runes_of_ascii "root packet Foo // " ++ [128512]%N ++ runes_of_ascii " emoji
-{ } options {
-    // a // b
-    tag // `tick` ""quote"" 'q'
-= //	t
-""""
-    ; u8x = zchar[0  ] }
-MetaData
-    int {zchar[ 10]
-	`` , i64 u8x`// not a comment` ,MetaDataX pack// `tick` ""quote"" 'q'
-`crlf
-line`
-, Logon charz `crlf
-line`
-    ,
-    // a // b
-    }
-")).
-Eval vm_compute in ("<<<M4099>>>" ++ check (runes_of_ascii "packet x_y_z {
-    @calculatedFrom("""")
-    repeat _x f32a,
-    @calculatedFrom(""it's"")
-    chars,
-    int32 u8x,// c
-}
+Eval vm_compute in ("<<<M1820>>>" ++ check (runes_of_ascii "
+root packet rootA { @leftPad
 
-options {
-    crc = """ ++ [233]%N ++ runes_of_ascii "t" ++ [233]%N ++ runes_of_ascii """
-}
-
-root packet string_ {
-}
-
-packet x {
-    u8x Packet,
-    i32 float,
-}
-
-options {
-    Pad = 4294967296;
-    leftPad = """ ++ [233]%N ++ runes_of_ascii "t" ++ [233]%N ++ runes_of_ascii """
-}")).
-Eval vm_compute in ("<<<M380>>>" ++ check (runes_of_ascii "options {
-falsey =
-    ""a	b"" ;leftPad = '0'// " ++ [128512]%N ++ runes_of_ascii " emoji
-; o =// c
-float64 } packet//
-x { match f32a
-as uint8x {
-[
-    255 ,
-    7 , 42
-    /// triple
-    , 7 ,  ""abc""
-    , 255 , ""1"" //	t
-, 0 ]:matchKey
+(
+'\x00' 	 // `tick` ""quote"" 'q'
+	)@lengthOf( crc )	@lengthOf(
+	string_
+    )
+    uint16
+    Z9_ `
+` 
 ,
-    // trailing space 
-    } , } // packet A { u8 x, }")).
-Eval vm_compute in ("<<<M982>>>" ++ check (runes_of_ascii "packet	pack{ uint8 metadata`line1
-line2`
-    , @tag(
-    0123456789
-)
-    string matchKey @calculatedFrom( ""`tick`"" ) `" ++ [28040; 24687; 31867; 22411]%N ++ runes_of_ascii "`
-    ,
-@tag( 1 ) // trailing space 
-i8i8 `doc`, o `crlf
-line`  , }MetaData leftPad { f32a
-    int , // packet A { u8 x, }
-}
 
-")).
-Eval vm_compute in ("<<<M800>>>" ++ check (runes_of_ascii "root
-    //	t
-    packet Logon //
-{ @tag(0123456789 )	@leftPad (' '
-) Packet{
-o @calculatedFrom(""a	b""
-    )  `tab	here`
-    , },
-    repeat leftPad i8i8`line1
-line2` , i64 calculatedFrom , float32 stringy @calculatedFrom(
-""`tick`"" )	, }
-
-")).
-Eval vm_compute in ("<<<M424>>>" ++ check (runes_of_ascii "options{ } options { Foo  =	3;
-u// @lengthOf(
-=	""{,}"" trueish
-=
-3
-// c
-// a // b
-;  a1 = char[] } //	t
-packet//
-i64_
-{ repeat Header rootA `a\`
-    , /// triple
-@tag( 3)
-char[// `tick` ""quote"" 'q'
-10 ]  matchKey
-`{ , }`, } // c")).
-Eval vm_compute in ("<<<M12>>>" ++ check (runes_of_ascii "  MetaData	calculatedFrom
-{char[]
-lengthOf
-    , } // trailing space 
-root // " ++ [27880; 37322]%N ++ runes_of_ascii "
-packet _x { @calculatedFrom(""" ++ [28040; 24687]%N ++ runes_of_ascii """) repeat zchar _x ,
-    // packet A { u8 x, }
-    repeat zchar[42//x
-]
-Pad , @tag(42	)char[ 42] u8x
-    ,}
-")).
-Eval vm_compute in ("<<<M2278>>>" ++ check (runes_of_ascii "MetaData Packet { }packet	asx  { @lengthOf( asx) falsey`crlf
-line`
-,
-    char[
-    packet x	{uint32// @lengthOf(
-rootA	,u32 options1 `say ""hi""` , @tag( 7
-    )// packet A { u8 x, }
-msg_type @lengthOf(
-stringy	)	, }
-
-")).
-Eval vm_compute in ("<<<M2238>>>" ++ check (runes_of_ascii "MetaData Packet { }packet	root  { @lengthOf( asx) falsey`crlf
-line`
-,
-    }
-    packet x	{uint32// @lengthOf(
-rootA	,u32 options1 `say ""hi""` , @tag( 7
-    )// packet A { u8 x, }
-msg_type @lengthOf(
-stringy	)	, }
-
-")).
-Eval vm_compute in ("<<<M2282>>>" ++ check (runes_of_ascii "MetaData Packet { }packet	asx  { @lengthOf( asx) falsey`crlf
-line`
-,
-    }
-    x packet	{uint32// @lengthOf(
-rootA	,u32 options1 `say ""hi""` , @tag( 7
-    )// packet A { u8 x, }
-msg_type @lengthOf(
-stringy	)	, }
-
-")).
-Eval vm_compute in ("<<<M2325>>>" ++ check (runes_of_ascii "MetaData Packet { }packet	asx  { @lengthOf( asx) falsey`crlf
-line`
-,
-    }
-    packet x	{uint32// @lengthOf(
-rootA	,u32 options1 `say ""hi""`  @tag( 7
-    )// packet A { u8 x, }
-msg_type @lengthOf(
-stringy	)	, }
-
-")).
-Eval vm_compute in ("<<<M246>>>" ++ check (runes_of_ascii "packet a1 {//	t
-} root packet float {char[] pack ,
-@tag(
-65535 ) u16 string_
-// trailing space 
-// c
-, repeat rootA	{
-// `tick` ""quote"" 'q'
-//x
-repeat
-    asx charz
-`a\`, }
-    // `tick` ""quote"" 'q'
-    ,}
-")).
-Eval vm_compute in ("<<<M1573>>>" ++ check (runes_of_ascii "root packet Foo // " ++ [128512]%N ++ runes_of_ascii " emoji
-{ } options {
-    // a // b
-    tag // `tick` ""quote"" 'q'
-= //	t
-""""
-    ; u8x = zchar[0  ] }
-MetaData
-    int {zchar[ 10]
-lengthOf	`` , i64 u8x`// not a comment` ,MetaDataX pack")).
-Eval vm_compute in ("<<<M3500>>>" ++ check (runes_of_ascii "
-root packet
-	Frame{
-
-    u8 K
-,Logon
-	first ,
-match K
-
-as
-Body{
-	1
-    :
-Logon
-    ,2
-    :
-    Logout , 
-}  ,}
-packet
-Logon
-
-    { string
-    user ,	} packet
-	Logout
-{ u16 reason,
-	}
-")).
-Eval vm_compute in ("<<<M955>>>" ++ check (runes_of_ascii "options {  charz =
-    """ ++ [128512]%N ++ runes_of_ascii """crc
-// " ++ [27880; 37322]%N ++ runes_of_ascii "
-//x
-= false;
-    u128
-= false
-    ; crc
-=
-' '}
-    /// triple
-    packet msg_type { string u8x , zchar[ 10] zchar@calculatedFrom(
-    ""abc"") `{ , }`, }
-")).
-Eval vm_compute in ("<<<M4345>>>" ++ check (runes_of_ascii "
-packet uint8x
-    {
-f32
-Header
-	@calculatedFrom( ""CRC32"" )
-    ,
-}
-MetaData
-roots {  string  f32a , }MetaData int  {
-
-options1
-string_  ,// `tick` ""quote"" 'q'
-		f64
-	float	,	} ")).
-Eval vm_compute in ("<<<M579>>>" ++ check (runes_of_ascii "packet uint8x {f32 Header @calculatedFrom( ""CRC32""
-),
-    }MetaData  roots { string f32a , }MetaData int  { options1 string_
-    , // `tick` ""quote"" 'q'
-f64
-float,
-    }
-")).
-Eval vm_compute in ("<<<M206>>>" ++ check (runes_of_ascii "options
-    {As
-=false	;
-}root packet calculatedFrom // a // b
-{ zchar[
-255 ] Z9_
-,  }  MetaData metadata{ int8 chars
-, char[]
-charz `two words` , char[ 0]
-rootA, }")).
-Eval vm_compute in ("<<<M4490>>>" ++ check (runes_of_ascii "options {
-    options1 = ""\" ++ [233]%N ++ runes_of_ascii """
-    x = u64
-    Z9_ = '0'
-    calculatedFrom = char[];
-}
-
-root packet trueish {
-}
-
-packet BodyLength {
-    @leftPad()
-    u64 _x,
-}")).
-Eval vm_compute in ("<<<M683>>>" ++ check (runes_of_ascii "root
-    packet
-    Packet// packet A { u8 x, }
-{leftPad
-    As , char[]	string_ ,
-} MetaData
-x {
-a1 u128 `u8 x,`	,
-// a // b
-// packet A { u8 x, }
-}
-
-")).
-Eval vm_compute in ("<<<M1523>>>" ++ check (runes_of_ascii "root packet Foo // " ++ [128512]%N ++ runes_of_ascii " emoji
-{ } options {
-    // a // b
-    tag // `tick` ""quote"" 'q'
-= //	t
-""""
-    ; u8x = zchar[0  ] }
-MetaData
-    int {zchar[ 10")).
-Eval vm_compute in ("<<<M516>>>" ++ check (runes_of_ascii "packet i8i8
-// packet A { u8 x, }
-//x
-{@rightPad
-    () msg_type{ rootA
-len , }
-    // trailing space 
-    , } root packet  options1
-    {  }
-")).
-Eval vm_compute in ("<<<M4413>>>" ++ check (runes_of_ascii "root packet charz {
-    @calculatedFrom(""a	b"")
-    repeat f32a options1 `u8 x,`,
-}
-
-options {
-    // " ++ [27880; 37322]%N ++ runes_of_ascii "
-    zchar = char[3];
-}
-/// triple")).
-Eval vm_compute in ("<<<M1675>>>" ++ check (runes_of_ascii "root packet /// triple
-rootA {	i32
-MetaDataX@calculatedFrom( ""CRC32"" ) `line1
-line2` repeat } MetaData BodyLength {
-u8
-rootA, } // c")).
-Eval vm_compute in ("<<<M1663>>>" ++ check (runes_of_ascii "root packet /// triple
-rootA {	i32
-MetaDataX@calculatedFrom( ""CRC32"" ) ) `line1
-line2` , } MetaData BodyLength {
-u8
-rootA, } // c")).
-Eval vm_compute in ("<<<M1654>>>" ++ check (runes_of_ascii "root packet /// triple
-rootA {	i32
-MetaDataX""CRC32"" @calculatedFrom( ) `line1
-line2` , } MetaData BodyLength {
-u8
-rootA, } // c")).
-Eval vm_compute in ("<<<M1697>>>" ++ check (runes_of_ascii "root packet /// triple
-rootA {	i32
-MetaDataX@calculatedFrom( ""CRC32"" ) `line1
-line2` , } MetaData BodyLength {
-
-rootA, } // c")).
-Eval vm_compute in ("<<<M1650>>>" ++ check (runes_of_ascii "root packet /// triple
-rootA {	i32
-int32@calculatedFrom( ""CRC32"" ) `line1
-line2` , } MetaData BodyLength {
-u8
-rootA, } // c")).
-Eval vm_compute in ("<<<M4001>>>" ++ check (runes_of_ascii "packet A {
-    u16 len @lengthOf(body) `tab
-    	x`,
-    u32 crc @calculatedFrom(""CRC32"") `tab
-    	x`,
-    string body,
-}")).
-Eval vm_compute in ("<<<M71>>>" ++ check (runes_of_ascii "options{ BodyLength=
-    '\x00' }options
-{ } options {  Pad
-    = ""\" ++ [233]%N ++ runes_of_ascii """  msg_type
-= uint32 ; a1 = '0'  Foo =
-    ' ' ; }")).
-Eval vm_compute in ("<<<M1883>>>" ++ check (runes_of_ascii "packet
-    Pad // a // b
-{ i8i8 @calculatedFrom( ""a	b"") `u8 x,` ,
-} options{ #float// " ++ [128512]%N ++ runes_of_ascii " emoji
-= f64 i64_
-=//	t
-00 }
-")).
-Eval vm_compute in ("<<<M1842>>>" ++ check (runes_of_ascii "packet
-    Pad // a // b
-{ i8i8 @calculatedFrom( ""a	b"") `u8 x,` ,
-} options{ =// " ++ [128512]%N ++ runes_of_ascii " emoji
-float f64 i64_
-=//	t
-00 }
-")).
-Eval vm_compute in ("<<<M4074>>>" ++ check (runes_of_ascii "packet body {
-    float32 zchar @lengthOf(x_y_z),
-    u64 int @calculatedFrom(""abc""),
-    // " ++ [27880; 37322]%N ++ runes_of_ascii "
-}
-
-root packet u {
-}")).
-Eval vm_compute in ("<<<M3494>>>" ++ check (runes_of_ascii "
-
-  packet FooBar 
-{u8
-a,  }  packet
-
-    foo_bar 
-{u16	b ,
-    }
-root packet
-    R
-    {FooBar ,foo_bar
-,
-} ")).
-Eval vm_compute in ("<<<M1223>>>" ++ check (runes_of_ascii "packet options1
-    {zchar[ 007
-]f32a
     @lengthOf(
-    //
-    msg_type )
-// `tick` ""quote"" 'q'
-// " ++ [128512]%N ++ runes_of_ascii " emoji
-,}")).
-Eval vm_compute in ("<<<M2986>>>" ++ check (runes_of_ascii "packet A {
-  match k as n {
-    [""a"", ""bb"", 007, ""d"", ""e"", 66, ""g"", ""h"", 9, ""j"", ""k""] : B,
-    2 : C
-  },
-}")).
-Eval vm_compute in ("<<<M2982>>>" ++ check (runes_of_ascii "packet A {
-  match k as n {
-    [""a"", 22, ""c c"", 4, ""e"", 66, ""g"", 8, ""i"", 10, ""k""] : B,
-    2 : C
-  },
-}")).
-Eval vm_compute in ("<<<M3353>>>" ++ check (runes_of_ascii "packet calculatedFrom { @tag( 4294967296 ) u msg_type // c
-, char[ 3 ] crc @lengthOf( len ) `u8 x,` , }")).
-Eval vm_compute in ("<<<M3571>>>" ++ check (runes_of_ascii "packet FooBar {
+	Z9_  ) 
+char[ 4294967296
+
+    ]
+zchar`say ""hi""` ,  u
+    ,
+match 
+int as
+
+stringy
+
+    {	3
+    :
+body	,
+    } 
+, }
+")).
+Eval vm_compute in ("<<<M1125>>>" ++ check (runes_of_ascii "// top
+packet // c0
+Logon // c1
+{ // c2
+@tag( // c3
+42 // c4
+) // c5
+@rightPad // c6
+( // c7
+' ' // c8
+) // c9
+@leftPad // c10
+( // c11
+) // c12
+repeat // c13
+trueish // c14
+{ // c15
+string // c16
+T // c17
+, // c18
+} // c19
+, // c20
+} // c21
+")).
+Eval vm_compute in ("<<<M544>>>" ++ check (runes_of_ascii "options
+{
+matchKey = 42/// triple
+x='0' ;
+// packet A { u8 x, }
+//
+charz
+=
+// packet A { u8 x, }
+// trailing space 
+true  ; } MetaData BodyLength
+{
+uint8
+pack,zchar[ 1]float ,  float32 x_y_z `` ,u32
+_x options i16 body  , }
+")).
+Eval vm_compute in ("<<<M409>>>" ++ check (runes_of_ascii "options
+{
+matchKey = match/// triple
+x='0' ;
+// packet A { u8 x, }
+//
+charz
+=
+// packet A { u8 x, }
+// trailing space 
+true  ; } MetaData BodyLength
+{
+uint8
+pack,zchar[ 1]float ,  float32 x_y_z `` ,u32
+_x,i16 body  , }
+")).
+Eval vm_compute in ("<<<M580>>>" ++ check (runes_of_ascii "options
+{
+matchKey = 42/// triple
+x='0' ;
+// packet A { u8 x, }
+//
+charz
+=
+// packet A { u8 x, }
+// trailing space 
+true  ; } MetaData BodyLength
+{
+uint8
+pack,zchar[ 1]float ,  float32 x_y_z `` ,u32
+_x,i16 " ++ [127]%N ++ runes_of_ascii " body  , }
+")).
+Eval vm_compute in ("<<<M438>>>" ++ check (runes_of_ascii "options
+{
+matchKey = 42/// triple
+x='0' ;
+// packet A { u8 x, }
+//
+charz
+true
+// packet A { u8 x, }
+// trailing space 
+=  ; } MetaData BodyLength
+{
+uint8
+pack,zchar[ 1]float ,  float32 x_y_z `` ,u32
+_x,i16 body  , }
+")).
+Eval vm_compute in ("<<<M446>>>" ++ check (runes_of_ascii "options
+{
+matchKey = 42/// triple
+x='0' ;
+// packet A { u8 x, }
+//
+charz
+=
+// packet A { u8 x, }
+// trailing space 
+true   } MetaData BodyLength
+{
+uint8
+pack,zchar[ 1]float ,  float32 x_y_z `` ,u32
+_x,i16 body  , }
+")).
+Eval vm_compute in ("<<<M501>>>" ++ check (runes_of_ascii "options
+{
+matchKey = 42/// triple
+x='0' ;
+// packet A { u8 x, }
+//
+charz
+=
+// packet A { u8 x, }
+// trailing space 
+true  ; } MetaData BodyLength
+{
+uint8
+pack,zchar[ 1] ,  float32 x_y_z `` ,u32
+_x,i16 body  , }
+")).
+Eval vm_compute in ("<<<M1395>>>" ++ check (runes_of_ascii "packet orderItem
+    // c1
+{ // c2
+u8 // c3a
+  // c3b
+a
+    // c4
+,
+    // c5
+} root packet // c8
+newOrder // c9a
+  // c9b
+{
+    // c10
+orderItem // c11a
+  // c11b
+, // c12
+u8
+    // c13
+x // c14
+, } ")).
+Eval vm_compute in ("<<<M1421>>>" ++ check (runes_of_ascii "packet u128 {
     u8 a,
 }
-
-packet foo_bar {
-    u16 b,
+root packet Msg {
+    u8 k,
+    u24 {
+        u8 Hi,
+        u16 Lo,
+    },
+    repeat i24 {
+        u32 q,
+    },
+    u128,
+    u16 float32x,
+    string s,
 }
-
-root packet R {
-    FooBar,
-    foo_bar,
-}")).
-Eval vm_compute in ("<<<M407>>>" ++ check (runes_of_ascii "// `tick` ""quote"" 'q'
-packet As { u64 msg_type
-,@lengthOf(
-trueish  ) lengthOf
-    int`a\` , //
-}")).
-Eval vm_compute in ("<<<M3259>>>" ++ check (runes_of_ascii "packet Logon { @tag( 42 ) @rightPad ( ' ' ) @leftPad ( ) repeat trueish { string T , } , }
-// c
 ")).
-Eval vm_compute in ("<<<M3229>>>" ++ check (runes_of_ascii "packet Logon { @tag( 42 ) @rightPad
+Eval vm_compute in ("<<<M665>>>" ++ check (runes_of_ascii "// c
+packet i64_ char[]	{ calculatedFrom , } packet
+trueish  {@calculatedFrom(
+""a\\"" ) o { i32 falsey@lengthOf( uint8x ),
+} , } // `tick` ""quote"" 'q'
+options {// c
+Z9_ = ' '//
+}
+")).
+Eval vm_compute in ("<<<M351>>>" ++ check (runes_of_ascii "root packet
+stringy { charz T// " ++ [128512]%N ++ runes_of_ascii " emoji
+`u8 x,` ,	char tag , uint64 u128 ,}
+options { x
+=
+    '0' // `tick` ""quote"" 'q'
+rootA =""CRC32"" ; // " ++ [27880; 37322]%N ++ runes_of_ascii "
+i64_=""a\\"" ; } options{
+}
+// " ++ [27880; 37322]%N ++ runes_of_ascii "
+")).
+Eval vm_compute in ("<<<M374>>>" ++ check (runes_of_ascii "
+packet
+// " ++ [27880; 37322]%N ++ runes_of_ascii "
 // c
-( ' ' ) @leftPad ( ) repeat trueish { string T , } , }")).
-Eval vm_compute in ("<<<M202>>>" ++ check (runes_of_ascii "
+MetaDataX
+{ repeat repeatCount i64_ , T `crlf
+line`,	}packet As
+    {
+    @tag( 10
+) @lengthOf(
+    u8x
+//
+// @lengthOf(
+) zchar[ 7 ] Foo , }
+")).
+Eval vm_compute in ("<<<M1609>>>" ++ check (runes_of_ascii "packet A {
+    match k as n {
+        [
+            ""a"", ""bb"", 007, ""d"", ""e"",
+            66, ""g"", ""h"", 9, ""j""
+        ] : B,
+        2 : C,
+    },
+}")).
+Eval vm_compute in ("<<<M249>>>" ++ check (runes_of_ascii "
 options {
-roots //x
-=""packet"" ; len  =0 ;crc  =zchar[65535
-/// triple
-// " ++ [128512]%N ++ runes_of_ascii " emoji
-]//x
-;
+Header
+    // a // b
+    =
+false float
+=
+""abc"" ;
+i64_  = false ;}options // " ++ [128512]%N ++ runes_of_ascii " emoji
+{
+//
+//x
+repeatCount
+    =
+    ""a\\"";
 }
+//
 ")).
-Eval vm_compute in ("<<<M4124>>>" ++ check (runes_of_ascii "
-packet 
-A{
-    match
-k as
+Eval vm_compute in ("<<<M1624>>>" ++ check (runes_of_ascii "  packet
 
-n{[
-	1	,
-""bb"" ,
-007 ,
-    ""d""	,  5 ]  : 
-B , 
-2
-    :
-C
-}  ,}")).
-Eval vm_compute in ("<<<M1356>>>" ++ check (runes_of_ascii "MetaData u	{ i32 i8i8`u8 x,` , MetaDataX
-// " ++ [27880; 37322]%N ++ runes_of_ascii "
-// " ++ [27880; 37322]%N ++ runes_of_ascii "
-pack `
-` , Logon zchar
-    `doc` ,}
+    Logon  {@tag( 42  )	@rightPad 
+(
+
+    ' ')@leftPad
+
+(
+
+)
+repeat
+
+    trueish
+	{	string  T  // c
+    , } 
+, 
+}
+
 ")).
-Eval vm_compute in ("<<<M1994>>>" ++ check (runes_of_ascii "root
-packet crc
-    { f32a @calculatedFrom( """ ++ [233]%N ++ runes_of_ascii "t" ++ [233]%N ++ runes_of_ascii """ i64
-    `say ""hi""`, lengthOf `` ,  }")).
-Eval vm_compute in ("<<<M2041>>>" ++ check (runes_of_ascii "root
-packet crc
-    { f32a @calculatedFrom( """ ++ [233]%N ++ runes_of_ascii "t" ++ [233]%N ++ runes_of_ascii """ )
-    `say ""hi""`, lengthOf `` ,  @}")).
-Eval vm_compute in ("<<<M3054>>>" ++ check (runes_of_ascii "packet A {
-    u32 crc @calculatedFrom(""x\
-y""),
-    @calculatedFrom(""x\
-y"") u8 y,
-}")).
-Eval vm_compute in ("<<<M3051>>>" ++ check (runes_of_ascii "packet A {
-    u32 crc @calculatedFrom(""x\
-y""),
-    @calculatedFrom(""x\
-y"") u8 y,
-}")).
-Eval vm_compute in ("<<<M3296>>>" ++ check (runes_of_ascii "packet o // c
-{ @tag( 42 ) repeat x { char[ 0123456789 ] i64_ , } , } options { }")).
-Eval vm_compute in ("<<<M3328>>>" ++ check (runes_of_ascii "packet o { @tag( 42 ) repeat x { char[ 0123456789 ] i64_ , } , } options // c
-{ }")).
-Eval vm_compute in ("<<<M1962>>>" ++ check (runes_of_ascii "root
- crc
-    { f32a @calculatedFrom( """ ++ [233]%N ++ runes_of_ascii "t" ++ [233]%N ++ runes_of_ascii """ )
-    `say ""hi""`, lengthOf `` ,  }")).
-Eval vm_compute in ("<<<M3594>>>" ++ check (runes_of_ascii "packet o {
-    @rightPad()
+Eval vm_compute in ("<<<M617>>>" ++ check (runes_of_ascii "MetaData
     // trailing space 
-    x_y_z calculatedFrom,
+    matchKey
+{ u64 chars // a // b
+,char[] char[] lengthOf `// not a comment`
+    , //	t
 }")).
-Eval vm_compute in ("<<<M4207>>>" ++ check (runes_of_ascii "packet A {
-    @tag(1)
-    // a
-    @leftPad('0')
-    // b
-    char[4] x,
-}")).
-Eval vm_compute in ("<<<M1911>>>" ++ check (runes_of_ascii "
-packet	As { @calculatedFrom( @calculatedFrom(//x
-""{,}""	)lengthOf , } 	 ")).
-Eval vm_compute in ("<<<M2209>>>" ++ check (runes_of_ascii "root
-    // `tick` ""quote"" 'q'
-    packet caf" ++ [233]%N ++ runes_of_ascii "_1 { trueish Packet , }
+Eval vm_compute in ("<<<M2016>>>" ++ check (runes_of_ascii "
+MetaData
+Packet
+	{  u128
+u128  `say ""hi""`
+    ,
+
+// @lengthOf(
+  	zchar 
+len
+,Pad  T	`say ""hi""` 	 // " ++ [128512]%N ++ runes_of_ascii " emoji
+	,  }
+
 ")).
-Eval vm_compute in ("<<<M1666>>>" ++ check (runes_of_ascii "root packet /// triple
-rootA {	i32
-MetaDataX@calculatedFrom( ""CRC32""")).
-Eval vm_compute in ("<<<M2876>>>" ++ check (runes_of_ascii "packet A {
+Eval vm_compute in ("<<<M1696>>>" ++ check (runes_of_ascii "packet orderItem {
+    // c2
+    u8 a,
+    // c5
+}
+
+root packet newOrder {
+    // c10
+    orderItem,// c12
+    u8 x,
+}")).
+Eval vm_compute in ("<<<M254>>>" ++ check (runes_of_ascii "options { i8i8= char[]
+    ; } packet
+MetaDataX{ @calculatedFrom( ""x y"" )int32 T `" ++ [28040; 24687; 31867; 22411]%N ++ runes_of_ascii "` ,
+    f64 matchKey
+    , }")).
+Eval vm_compute in ("<<<M616>>>" ++ check (runes_of_ascii "MetaData
+    // trailing space 
+    matchKey
+{ u64 chars // a // b
+, lengthOf `// not a comment`
+    , //	t
+}")).
+Eval vm_compute in ("<<<M910>>>" ++ check (runes_of_ascii "packet A {
   match k as n {
-    [1, ""bb"", 007] : B,
+    [""a"", 22, ""c c"", 4, ""e"", 66, ""g"", 8, ""i"", 10, ""k"", 12] : B
     2 : C
   },
 }")).
-Eval vm_compute in ("<<<M2168>>>" ++ check (runes_of_ascii "root
-    // `tick` ""quote"" 'q'
-    packet As trueish { Packet , }
-")).
-Eval vm_compute in ("<<<M725>>>" ++ check (runes_of_ascii "MetaData options1
-{ zchar[  007 ]u
-,x_y_z f32a
-    `u8 x,` , }
-")).
-Eval vm_compute in ("<<<M2153>>>" ++ check (runes_of_ascii "
-    // `tick` ""quote"" 'q'
-    packet As { trueish Packet , }
-")).
-Eval vm_compute in ("<<<M3033>>>" ++ check (runes_of_ascii "packet A {
-    B b `x
-`,
-    B `x
-`,
-    repeat B bs `x
-`,
-}")).
-Eval vm_compute in ("<<<M3174>>>" ++ check (runes_of_ascii "packet A { // a
- @tag(1) u8 x, // b
- // c
- @tag(2) u8 y, }")).
-Eval vm_compute in ("<<<M500>>>" ++ check (runes_of_ascii "packet body { i32 Z9_ @lengthOf( roots),
-    //	t
-    }
-")).
-Eval vm_compute in ("<<<M175>>>" ++ check (runes_of_ascii "packet
-    A {
-//	t
-/// triple
-repeat
-char[] _x ,  }
-")).
-Eval vm_compute in ("<<<M35>>>" ++ check (runes_of_ascii "MetaData trueish { char[]chars , char[] int
-    ,}
-")).
-Eval vm_compute in ("<<<M3927>>>" ++ check (runes_of_ascii "options	{	}
-	options	{}	// `tick` ""quo''te"" 'q'
- 
-")).
-Eval vm_compute in ("<<<M2396>>>" ++ check (runes_of_ascii "MetaData A
-{
-i64
-chars	} , // `tick` ""quote"" 'q'")).
-Eval vm_compute in ("<<<M3012>>>" ++ check (runes_of_ascii "MetaData M {
-    u8 x `a
-b`,
-    T t `a
-b`,
-}")).
-Eval vm_compute in ("<<<M1264>>>" ++ check (runes_of_ascii "root
-packet options1
-{ }
-root packet int{ }")).
-Eval vm_compute in ("<<<M3673>>>" ++ check (runes_of_ascii "MetaData rootA {
-}
+Eval vm_compute in ("<<<M1251>>>" ++ check (runes_of_ascii "// c
+packet calculatedFrom { @tag( 4294967296 ) u msg_type , char[ 3 ] crc @lengthOf( len ) `u8 x,` , }")).
+Eval vm_compute in ("<<<M1284>>>" ++ check (runes_of_ascii "packet calculatedFrom { @tag( 4294967296 ) u msg_type , char[ 3 ] crc @lengthOf( len )
+// c
+`u8 x,` , }")).
+Eval vm_compute in ("<<<M229>>>" ++ check (runes_of_ascii "packet x_y_z { char[
+    // packet A { u8 x, }
+    42 ] A @calculatedFrom( ""`tick`"" ) `it's` , }
 
-options {
-    tag = 3;
-}")).
-Eval vm_compute in ("<<<M2108>>>" ++ check (runes_of_ascii "MetaData @tag(
-{// " ++ [128512]%N ++ runes_of_ascii " emoji
-i16 stringy , }")).
-Eval vm_compute in ("<<<M557>>>" ++ check (runes_of_ascii "
-options
-    {
-i8i8= '0';asx =uint32	}
 ")).
-Eval vm_compute in ("<<<M3196>>>" ++ check (runes_of_ascii "MetaData zchar { zchar[ // c
-3 ] Pad , }")).
-Eval vm_compute in ("<<<M2809>>>" ++ check (runes_of_ascii "MetaData `` ; @calculatedFrom( MetaData")).
-Eval vm_compute in ("<<<M4181>>>" ++ check (runes_of_ascii "
+Eval vm_compute in ("<<<M1130>>>" ++ check (runes_of_ascii "packet // c
+Logon { @tag( 42 ) @rightPad ( ' ' ) @leftPad ( ) repeat trueish { string T , } , }")).
+Eval vm_compute in ("<<<M1162>>>" ++ check (runes_of_ascii "packet Logon { @tag( 42 ) @rightPad ( ' ' ) @leftPad ( ) repeat trueish { string // c
+T , } , }")).
+Eval vm_compute in ("<<<M1813>>>" ++ check (runes_of_ascii "
 packet
 
-    repeatCount
-{
+    As
 
-    }
+{ match  repeatCount 
+as metadata {	007  :	//x
+  crc , ""a	b""
+
+:  A}, }
 ")).
-Eval vm_compute in ("<<<M2614>>>" ++ check (runes_of_ascii "packet A { match k as n { 1 : 2 }, }")).
-Eval vm_compute in ("<<<M2618>>>" ++ check (runes_of_ascii "packet A { @tag(1) @tag(2) u8 x, }")).
-Eval vm_compute in ("<<<M2563>>>" ++ check (runes_of_ascii "packet A { repeat repeat u8 x, }")).
-Eval vm_compute in ("<<<M78>>>" ++ check (runes_of_ascii "options { zchar=
-    false ; }")).
-Eval vm_compute in ("<<<M3138>>>" ++ check (runes_of_ascii "packet A {
- u8 x `d" ++ [65279]%N ++ runes_of_ascii "`, // c" ++ [65279]%N ++ runes_of_ascii "
+Eval vm_compute in ("<<<M878>>>" ++ check (runes_of_ascii "packet A {
+  match k as n {
+    [1, 22, 007, 4, 5, 66, 7, 8, 9, 10] : B
+    2 : C
+  },
 }")).
-Eval vm_compute in ("<<<M2583>>>" ++ check (runes_of_ascii "packet A { x @lengthOf(y), }")).
-Eval vm_compute in ("<<<M2837>>>" ++ check (runes_of_ascii "O" ++ [65533; 8; 1374; 65533; 65533; 65533]%N ++ runes_of_ascii "w" ++ [65533]%N ++ runes_of_ascii "I" ++ [65533; 65533; 65533; 65533]%N ++ runes_of_ascii "`1" ++ [65533]%N ++ runes_of_ascii "+" ++ [65533]%N ++ runes_of_ascii ">" ++ [65533; 1492; 23; 65533]%N ++ runes_of_ascii "<q" ++ [65533]%N)).
-Eval vm_compute in ("<<<M2774>>>" ++ check (runes_of_ascii "#" ++ [65533; 28; 65533; 65533]%N ++ runes_of_ascii "P9	" ++ [65533; 8; 65533]%N ++ runes_of_ascii "z" ++ [65533; 65533]%N ++ runes_of_ascii "(," ++ [65533; 65533; 65533; 65533]%N ++ runes_of_ascii " " ++ [22; 65533; 65533; 19]%N ++ runes_of_ascii "C")).
-Eval vm_compute in ("<<<M3389>>>" ++ check (runes_of_ascii "packet lengthOf { }
+Eval vm_compute in ("<<<M1340>>>" ++ check (runes_of_ascii "
+packet	Inner	{u8 a
+,
+}
+	root
+    packet 
+P
+
+    { 
+Inner 
+ref_obj
+,
+u8
+
+x , 
+}
+")).
+Eval vm_compute in ("<<<M1213>>>" ++ check (runes_of_ascii "packet o {
 // c
-")).
-Eval vm_compute in ("<<<M3277>>>" ++ check (runes_of_ascii "options { u8x = // c
-3 }")).
-Eval vm_compute in ("<<<M3804>>>" ++ check (runes_of_ascii "packet
-lengthOf  {}// c")).
-Eval vm_compute in ("<<<M525>>>" ++ check (runes_of_ascii "packet rootA
-{ //
-}
-")).
-Eval vm_compute in ("<<<M731>>>" ++ check (runes_of_ascii "MetaData crc{//	t
-}
-")).
-Eval vm_compute in ("<<<M2790>>>" ++ check ([65533; 65533; 65533]%N ++ runes_of_ascii "4" ++ [65533; 65533]%N ++ runes_of_ascii "(" ++ [65533]%N ++ runes_of_ascii "X" ++ [65533]%N ++ runes_of_ascii "fb" ++ [65533]%N ++ runes_of_ascii "4" ++ [65533]%N ++ runes_of_ascii "{" ++ [65533]%N ++ runes_of_ascii "E" ++ [65533]%N)).
-Eval vm_compute in ("<<<M2801>>>" ++ check (runes_of_ascii "{ float32 : repeat")).
-Eval vm_compute in ("<<<M3136>>>" ++ check (runes_of_ascii "packet A {
-}
-// c" ++ [65279]%N)).
-Eval vm_compute in ("<<<M3079>>>" ++ check (runes_of_ascii "packet A {
-}// c" ++ [5760]%N)).
-Eval vm_compute in ("<<<M791>>>" ++ check (runes_of_ascii "
-// @lengthOf(
-")).
-Eval vm_compute in ("<<<M290>>>" ++ check (runes_of_ascii "options{  }
-")).
-Eval vm_compute in ("<<<M3578>>>" ++ check (runes_of_ascii "options {
+@tag( 42 ) repeat x { char[ 0123456789 ] i64_ , } , } options { }")).
+Eval vm_compute in ("<<<M1245>>>" ++ check (runes_of_ascii "packet o { @tag( 42 ) repeat x { char[ 0123456789 ] i64_ , } , } options {
+// c
 }")).
-Eval vm_compute in ("<<<M2477>>>" ++ check (runes_of_ascii "@leftPad")).
-Eval vm_compute in ("<<<M2440>>>" ++ check (runes_of_ascii "uint88")).
-Eval vm_compute in ("<<<M2482>>>" ++ check (runes_of_ascii "@left")).
-Eval vm_compute in ("<<<M643>>>" ++ check (runes_of_ascii "  
-
+Eval vm_compute in ("<<<M818>>>" ++ check (runes_of_ascii "packet A {
+  match k as n {
+    [""a"", 22, ""c c"", 4, ""e""] : B,
+    2 : C
+  },
+}")).
+Eval vm_compute in ("<<<M763>>>" ++ check (runes_of_ascii "= true ""packet"" u16 10 zchar[ ] uint64 char packet u32 packet uint64 uint8")).
+Eval vm_compute in ("<<<M813>>>" ++ check (runes_of_ascii "packet A {
+  match k as n {
+    [1, 22, 007, 4, 5] : B
+    2 : C
+  },
+}")).
+Eval vm_compute in ("<<<M1558>>>" ++ check (runes_of_ascii "options{
+	Z9_
+    =
+	""" ++ [233]%N ++ runes_of_ascii "t" ++ [233]%N ++ runes_of_ascii """ ; rootA=
+    string ;}// trailing space 
+ 
 ")).
-Eval vm_compute in ("<<<M2452>>>" ++ check (runes_of_ascii "asx")).
-Eval vm_compute in ("<<<M2438>>>" ++ check (runes_of_ascii "u8")).
-Eval vm_compute in ("<<<M2671>>>" ++ check (runes_of_ascii "}")).
+Eval vm_compute in ("<<<M779>>>" ++ check (runes_of_ascii "packet A {
+  match k as n {
+    [""a"", ""bb""] : B,
+    2 : C
+  },
+}")).
+Eval vm_compute in ("<<<M953>>>" ++ check (runes_of_ascii "packet A {
+    B b `
+x`,
+    B `
+x`,
+    repeat B bs `
+x`,
+}")).
+Eval vm_compute in ("<<<M29>>>" ++ check (runes_of_ascii "packet chars// packet A { u8 x, }
+{} packet u {
+}
+//	t
+")).
+Eval vm_compute in ("<<<M1950>>>" ++ check (runes_of_ascii "options {
+    a = ""\
+    "";
+    b = ""\
+    ""
+}")).
+Eval vm_compute in ("<<<M1105>>>" ++ check (runes_of_ascii "MetaData
+// c
+zchar { zchar[ 3 ] Pad , }")).
+Eval vm_compute in ("<<<M1074>>>" ++ check (runes_of_ascii "MetaData M {
+}// c
+MetaData N {
+}// d")).
+Eval vm_compute in ("<<<M330>>>" ++ check (runes_of_ascii "packet Logon
+    { }packet _x{}
+")).
+Eval vm_compute in ("<<<M992>>>" ++ check (runes_of_ascii "packet A {
+ u8 x `d" ++ [133]%N ++ runes_of_ascii "`, // c" ++ [133]%N ++ runes_of_ascii "
+}")).
+Eval vm_compute in ("<<<M952>>>" ++ check (runes_of_ascii "packet A {
+    u8 x `
+x`,
+}")).
+Eval vm_compute in ("<<<M1193>>>" ++ check (runes_of_ascii "options { u8x = 3 // c
+}")).
+Eval vm_compute in ("<<<M764>>>" ++ check ([65533; 65533; 65533]%N ++ runes_of_ascii "L" ++ [919]%N ++ runes_of_ascii "p" ++ [403; 65533; 6; 65533; 65533; 65533; 65533]%N ++ runes_of_ascii "l" ++ [65533; 12; 19]%N ++ runes_of_ascii "$" ++ [65533; 65533]%N)).
+Eval vm_compute in ("<<<M1011>>>" ++ check (runes_of_ascii "// c" ++ [8232]%N ++ runes_of_ascii "
+packet A {
+}")).
+Eval vm_compute in ("<<<M998>>>" ++ check (runes_of_ascii "packet A {
+}// c" ++ [8192]%N)).
+Eval vm_compute in ("<<<M151>>>" ++ check (runes_of_ascii "options { }")).
+Eval vm_compute in ("<<<M1029>>>" ++ check (runes_of_ascii "// c" ++ [11]%N)).
